@@ -1,45 +1,53 @@
 """C15 generator: Generated/DatConsts.lean from the CURRENT debug-authentication sources and device database.
 
-Pure static reading (`ast`, `yaml.safe_load`); never imports spsdk.
+Never imports spsdk.  Two ways of reading, both independent of HOW the source spells things:
 
-Emitted (namespace SpsdkVerif.Generated.DatConsts; types from Base/DatTypes.lean):
-  * `versions`, `rsaMinorOfBits`, `eccMinorOfBits`          - ProtocolVersion.VERSIONS / from_public_key maps
-  * `rsaKeySize`, `rsaSigSize`, `eccCoordSize`, `eccHashBits` - the size dictionaries of the credential classes
-  * `rsaExport/rsaSign`, `eccExport/eccSign`, `eleExport/eleSign`
-        - `get_data_format()` (f-string pieces, with / without signature) zipped with the argument list of the
-          `pack(...)` call of `export()` / `_get_data_to_sign()`  : List (DatFld × DatArg)
-  * `rsaParse`, `eccParseHead/eccParseTail`, `eleParseHead/eleParseTail`
-        - the format used by `parse()` zipped with the unpack *targets*, each target resolved to the constructor attribute
-          it is passed to (class `Canon`: local variable names do not matter); `*ParseFields` = keywords of `cls(...)`
-  * `flagsExport/flagsValidate/flagsUsed/flagsCnt/flagsMarker` - RotMetaFlags.export/validate/parse translated to Lean
-          by tools/extract/py2lean.py after rewriting `self.x` to a parameter `x` (documented below)
-  * `rotMetaRsaSize/Count/Item`                              - literals of RotMetaRSA.export/parse
-  * `dacHead/dacTail` (+ targets), `dacExport`, `dacRotHashLength` (translated `get_rot_hash_length`)
-  * `darCommonBase`, `darCommonEcc`, `darSignTail`, `darExportTail`, `darVersionUsesEcc`
-  * `rows` : List DatRow - every (family, revision incl. "latest") having the `dat` feature, after the same
-          alias / revision / defaults resolution as spsdk/utils/database.py (cross-checked against the live
-          database by harness/props/C15.py on every run).
+  * **by value through a sandbox** (`Sandbox`): the three modules spsdk/dat/debug_credential.py, dac_packet.py, dar_packet.py are
+    compiled from their AST with every `import` removed and every function annotation stripped, and executed in a namespace in
+    which unknown names are permissive dummies and a handful of names are small stubs (struct functions that RECORD their calls,
+    key objects that are just byte strings, a hash that remembers its algorithm, a database that answers from a probe table, an
+    opaque SRK table).  The generator then *probes* the real classes with distinctive values and reads off
+      - versions, key-size -> minor-version maps, the field layout of export() / _get_data_to_sign() of the three credential
+        classes (recorded `pack` format, normalised with consteval.struct_fields, zipped with the arguments identified by value;
+        symbolic widths found by varying the sizes of the stub objects), the layout parse() reads (recorded `unpack_from` calls by
+        offset, each value followed into the attribute of the returned object that receives it),
+      - RotMetaRSA geometry, RotMetaFlags export / constructor / parse tables, RotMetaEcc item width and hash tables,
+      - DAC export / parse layout and the RoT-hash-length table, DAR common data / signed message / exported packet per protocol
+        version, the accept / refuse table of create_from_yaml_config, what the EdgeLock v2 wrapper does with the permission data.
+    Control flow, helper methods, constant hoisting, struct spellings ("2H" / "HH", "L" / "I"), dict order, annotations, comments,
+    messages and method order cannot change what is generated; behaviour can.
+  * **statically** (`ast` + consteval): the AHAB certificate facts (argument order of its `pack`, unpack targets) and the device
+    database (replica of Device.load/_load_alias; cross-checked against the live database by harness/props/C15.py on every run).
+
+A probe that raises becomes an `.unknown` / empty stand-in (a broken obligation), never a crash of the generator.
 """
 from __future__ import annotations
 
+import abc
 import ast
+import builtins
+import collections
 import copy
+import dataclasses
+import math
 import re
+import struct
+import types
 
 import yaml
 
-import py2lean
+from consteval import ModuleEnv, NotConst, struct_fields
 from extract import REPO, emit, parse
-from py2lean import Env, Untranslatable, translate_function
 
 DC = "spsdk/dat/debug_credential.py"
 DAC = "spsdk/dat/dac_packet.py"
 DAR = "spsdk/dat/dar_packet.py"
+CERT = "spsdk/image/ahab/ahab_certificate.py"
 
 
 # ------------------------------------------------------------------------------------------------ ast helpers
 def _cls(tree, name):
-    for n in tree.body:
+    for n in (tree.body if tree else []):
         if isinstance(n, ast.ClassDef) and n.name == name:
             return n
     return None
@@ -61,404 +69,927 @@ def _lit(node):
         return None
 
 
-def _class_const(cls, name):
-    if cls is None:
-        return None
-    for st in cls.body:
-        if isinstance(st, ast.Assign) and len(st.targets) == 1 and isinstance(st.targets[0], ast.Name) and st.targets[0].id == name:
-            return _lit(st.value)
-    return None
-
-
-class Canon:
-    """Makes the expressions of one function independent of the names of its locals.
-
-    * a local assigned exactly once by a plain `x = expr` is replaced by (the canonical form of) `expr`,
-    * a local that is a target of a tuple-unpacking assignment is replaced by the attribute it ends up in: the keyword
-      of the `cls(...)` call of the `return` statement it is passed to (directly or through `X.parse(local)`), or
-      `major` / `minor` for the arguments of `ProtocolVersion.from_version(a, b)`; rendered as `«field»`.
-    Renaming a local variable therefore does not change what is generated."""
-
-    def __init__(self, fn, kwmap):
-        self.assign1, self.sem = {}, {}
-        if fn is None:
-            return
-        counts, tuple_targets = {}, set()
-        for n in ast.walk(fn):
-            if isinstance(n, ast.Assign):
-                for t in n.targets:
-                    if isinstance(t, ast.Name):
-                        counts[t.id] = counts.get(t.id, 0) + 1
-                        self.assign1[t.id] = n.value
-                    elif isinstance(t, (ast.Tuple, ast.List)):
-                        for e in t.elts:
-                            if isinstance(e, ast.Name):
-                                tuple_targets.add(e.id)
-            elif isinstance(n, (ast.AugAssign, ast.For)):
-                t = n.target
-                if isinstance(t, ast.Name):
-                    counts[t.id] = counts.get(t.id, 0) + 2
-        self.assign1 = {k: v for k, v in self.assign1.items() if counts.get(k) == 1 and k not in tuple_targets}
-        for n in ast.walk(fn):
-            if isinstance(n, ast.Call):
-                f = ast.unparse(n.func)
-                if f.endswith("from_version") and len(n.args) == 2:
-                    for a, fld in zip(n.args, ("major", "minor")):
-                        if isinstance(a, ast.Name) and a.id in tuple_targets:
-                            self.sem.setdefault(a.id, fld)
-                if f == "cls":
-                    for kw in n.keywords:
-                        v = kw.value
-                        if isinstance(v, ast.Call) and isinstance(v.func, ast.Attribute) and v.func.attr == "parse" and len(v.args) == 1:
-                            v = v.args[0]
-                        if isinstance(v, ast.Name) and kw.arg in kwmap and (v.id in tuple_targets or v.id in self.assign1):
-                            self.sem.setdefault(v.id, kwmap[kw.arg])
-        # a local with a meaning is never inlined
-        for k in self.sem:
-            self.assign1.pop(k, None)
-
-    def node(self, e, depth=0):
-        c = self
-
-        class T(ast.NodeTransformer):
-            def visit_Name(self, n):
-                if isinstance(n.ctx, ast.Load):
-                    if n.id in c.sem:
-                        return ast.Name(id="«%s»" % c.sem[n.id], ctx=n.ctx)
-                    if n.id in c.assign1 and depth < 5:
-                        return c.node(copy.deepcopy(c.assign1[n.id]), depth + 1)
-                return n
-        return T().visit(copy.deepcopy(e))
-
-    def text(self, e):
-        return ast.unparse(self.node(e))
-
-    def field(self, e):
-        """Lean DatArg of an unpack target."""
-        if isinstance(e, ast.Name):
-            if e.id == "_":
-                return ".skip"
-            f = self.sem.get(e.id)
-            return FIELD_TOK.get(f, ".unknown")
-        return ".unknown"
-
-
-FIELD_TOK = {"major": ".major", "minor": ".minor", "socc": ".socc", "uuid": ".uuid", "rot_meta": ".rotMeta", "dck_pub": ".dck",
-             "cc_socu": ".ccSocu", "cc_vu": ".ccVu", "cc_beacon": ".beacon", "rot_pub": ".rotPub", "signature": ".sig",
-             "rotid_rkh_revocation": ".revocation", "rotid_rkth_hash": ".rkthHash", "cc_soc_pinned": ".socPinned",
-             "cc_soc_default": ".socDefault", "challenge": ".challenge"}
-DC_KW = {k: k for k in ("socc", "uuid", "rot_meta", "dck_pub", "cc_socu", "cc_vu", "cc_beacon", "rot_pub", "signature")}
-DAC_KW = {k: k for k in ("socc", "uuid", "rotid_rkh_revocation", "rotid_rkth_hash", "cc_soc_pinned", "cc_soc_default", "cc_vu", "challenge")}
-NOCANON = Canon(None, {})
-
-
-def _str_pieces(node, canon=NOCANON):
-    """Flatten a `"<" + "2H" + f"{x}s" + ...` expression into a list of pieces: str or ('expr', canonical source)."""
-    if isinstance(node, ast.Name) and node.id in canon.assign1:
-        return _str_pieces(canon.assign1[node.id], canon)
-    if isinstance(node, ast.BinOp) and isinstance(node.op, ast.Add):
-        a, b = _str_pieces(node.left, canon), _str_pieces(node.right, canon)
-        return None if a is None or b is None else a + b
-    if isinstance(node, ast.Constant) and isinstance(node.value, str):
-        return [node.value]
-    if isinstance(node, ast.JoinedStr):
-        out = []
-        for v in node.values:
-            if isinstance(v, ast.Constant):
-                out.append(str(v.value))
-            elif isinstance(v, ast.FormattedValue):
-                out.append(("expr", canon.text(v.value)))
-            else:
-                return None
-        return out
-    return None
-
-
-# canonical width expressions (locals already resolved by `Canon`: «x» = the local that ends up in attribute x)
-W_EXPR = {
-    "len(self.rot_meta)": ".lenRotMeta",
-    "self.rot_pub.coordinate_size * 2": ".rotCoord2", "self.dck_pub.coordinate_size * 2": ".dckCoord2",
-    "len(self.export_dck_pub())": ".lenDck", "len(self.signature)": ".lenSig",
-    "«rot_meta».HASH_SIZE * 2": ".hashSize2", "len(«rot_pub».export())": ".lenRotPub", "«rot_pub».signature_size": ".rotSigSize",
-    "cls.get_rot_hash_length(DebugCredentialCertificate.get_family_ambassador(«socc»), «major», «minor»)": ".hashLength",
-}
-UNKNOWN_W = []
-
-
-def _width(expr, part):
-    """Lean DatW of a canonical width expression; `{..}[version.minor]` dictionaries become .rsaKey (in the part of the
-    format that is always present) / .rsaSig (in the signature part)."""
-    if expr in W_EXPR:
-        return W_EXPR[expr]
-    if re.fullmatch(r"\{[0-9:, ]*\}\[version\.minor\]", expr):
-        return ".rsaKey" if part == "base" else ".rsaSig"
-    UNKNOWN_W.append(expr)
-    return ".unknown"
-
-
-def _fields(pieces, part="base"):
-    """struct format pieces -> list of Lean DatFld terms (little endian only; anything else -> .unknown)."""
-    if pieces is None:
-        return [".unknown"]
-    # re-join: literal text stays, expressions become a placeholder token
-    toks, exprs = "", []
-    for p in pieces:
-        if isinstance(p, tuple):
-            toks += "{%d}" % len(exprs)
-            exprs.append(p[1])
-        else:
-            toks += p
-    out = []
-    if toks.startswith("<"):
-        toks = toks[1:]
-    elif part == "base":
-        return [".unknown"]
-    i = 0
-    while i < len(toks):
-        m = re.match(r"(\d+|\{\d+\})?([HLs])", toks[i:])
-        if not m:
-            return out + [".unknown"]
-        cnt, code = m.group(1), m.group(2)
-        i += m.end()
-        if code == "s":
-            if cnt is None:
-                out.append("(.bytes (.fixed 1))")
-            elif cnt.startswith("{"):
-                out.append("(.bytes %s)" % _width(exprs[int(cnt[1:-1])], part))
-            else:
-                out.append("(.bytes (.fixed %d))" % int(cnt))
-        else:
-            if cnt is not None and cnt.startswith("{"):
-                return out + [".unknown"]
-            out.extend([".u16" if code == "H" else ".u32"] * (int(cnt) if cnt else 1))
-    return out
-
-
-ARG_EXPR = {
-    "self.version.major": ".major", "self.version.minor": ".minor", "self.socc": ".socc", "self.uuid": ".uuid",
-    "self.rot_meta.export()": ".rotMeta", "self.export_dck_pub()": ".dck", "self.cc_socu": ".ccSocu", "self.cc_vu": ".ccVu",
-    "self.cc_beacon": ".beacon", "self.export_rot_pub()": ".rotPub", "self.signature": ".sig",
-    # DAC
-    "self.rotid_rkh_revocation": ".revocation", "self.rotid_rkth_hash": ".rkthHash", "self.cc_soc_pinned": ".socPinned",
-    "self.cc_soc_default": ".socDefault", "self.challenge": ".challenge",
-    # DAR
-    "self.debug_credential.export()": ".dcExport", "self.auth_beacon": ".authBeacon", "self.dac.uuid": ".dacUuid",
-    "self.dac.challenge": ".dacChallenge", "self._get_signature()": ".signature",
-}
-
-
-def _arg(node):
-    return ARG_EXPR.get(ast.unparse(node), ".unknown")
-
-
-def _zip(flds, args):
-    if len(flds) != len(args):
-        n = max(len(flds), len(args))
-        flds = flds + [".unknown"] * (n - len(flds))
-        args = args + [".unknown"] * (n - len(args))
-    return "[" + ", ".join(f"({f}, {a})" for f, a in zip(flds, args)) + "]"
-
-
-def data_format(cls):
-    """(pieces always present, pieces of the signature part, [dict literal of the key width, of the signature width]) of
-    `get_data_format`: the returned local, its first assignment and its `+=` under `if include_signature`."""
-    fn = _fun(cls, "get_data_format")
-    if fn is None:
-        return None, None, [None, None]
-    canon = Canon(fn, {})
-    var = None
-    for n in ast.walk(fn):
-        if isinstance(n, ast.Return) and isinstance(n.value, ast.Name):
-            var = n.value.id
-    base = sig = None
-    for n in ast.walk(fn):
-        if isinstance(n, ast.Assign) and len(n.targets) == 1 and isinstance(n.targets[0], ast.Name) and n.targets[0].id == var and base is None:
-            base = _str_pieces(n.value, canon)
-        if isinstance(n, ast.AugAssign) and isinstance(n.target, ast.Name) and n.target.id == var:
-            sig = _str_pieces(n.value, canon)
-
-    def dict_of(pieces):
-        ds = {p[1] for p in (pieces or []) if isinstance(p, tuple) and re.fullmatch(r"\{[0-9:, ]*\}\[version\.minor\]", p[1])}
-        if len(ds) != 1:
-            return None
-        try:
-            return ast.literal_eval(ds.pop().rsplit("[", 1)[0])
-        except (ValueError, SyntaxError):
-            return None
-    return base, sig, [dict_of(base), dict_of(sig)]
-
-
-def pack_args(fn):
-    """argument expressions (after the format) of the single `pack(...)` call of `fn`."""
-    if fn is None:
-        return None
-    for n in ast.walk(fn):
-        if isinstance(n, ast.Call) and isinstance(n.func, ast.Name) and n.func.id == "pack":
-            return [_arg(a) for a in n.args[1:]]
-    return None
-
-
-def unpack_calls(fn, canon):
-    """[(format pieces | ('method', name), [target fields])] of every `targets = unpack_from(fmt, ...)` of `fn`, in order."""
-    out = []
-    if fn is None:
-        return out
-    for n in ast.walk(fn):
-        if isinstance(n, ast.Assign) and isinstance(n.value, ast.Call) and isinstance(n.value.func, ast.Name) \
-                and n.value.func.id == "unpack_from" and n.value.args:
-            t = n.targets[0]
-            elts = t.elts if isinstance(t, (ast.Tuple, ast.List)) else [t]
-            f = n.value.args[0]
-            if isinstance(f, ast.Call) and isinstance(f.func, ast.Attribute):
-                fmt = ("method", f.func.attr)
-            else:
-                fmt = _str_pieces(f, canon)
-            out.append((fmt, [canon.field(e) for e in elts], n.lineno))
-    out.sort(key=lambda x: x[2])
-    return out
-
-
-def ctor_fields(fn, kwmap):
-    """keywords of the `cls(...)` call that `fn` returns, as fields, in source order."""
-    if fn is None:
-        return "[]"
-    for n in ast.walk(fn):
-        if isinstance(n, ast.Return) and isinstance(n.value, ast.Call) and isinstance(n.value.func, ast.Name) and n.value.func.id == "cls":
-            return "[" + ", ".join(FIELD_TOK.get(kwmap.get(kw.arg), ".unknown") for kw in n.value.keywords if kw.arg != "version") + "]"
-    return "[]"
-
-
 def pairs(d):
+    """a table the code only indexes: sorted by key"""
     if not isinstance(d, dict):
         return "[]"
-    return "[" + ", ".join(f"({int(k)}, {int(v)})" for k, v in d.items()) + "]"
-
-
-# ------------------------------------------------------------------------------------------------ small functions
-class _SelfToName(ast.NodeTransformer):
-    def visit_Attribute(self, node):
-        self.generic_visit(node)
-        if isinstance(node.value, ast.Name) and node.value.id == "self":
-            return ast.copy_location(ast.Name(id=node.attr, ctx=node.ctx), node)
-        return node
-
-
-def _translate(fn_src_node, name, params, ret, body, env):
-    """Build a synthetic `def name(params) -> ret: body` and translate it."""
-    args = ast.arguments(posonlyargs=[], args=[ast.arg(arg=p, annotation=ast.Name(id=t, ctx=ast.Load())) for p, t in params],
-                         kwonlyargs=[], kw_defaults=[], defaults=[])
-    fn = ast.FunctionDef(name=name, args=args, body=body, decorator_list=[], returns=ast.Name(id=ret, ctx=ast.Load()), type_params=[])
-    ast.fix_missing_locations(fn)
-    text, _sig = translate_function(fn, name, env)
-    return text
-
-
-def flags_functions(tree, out, meta):
-    env = Env()
-    cls = _cls(tree, "RotMetaFlags")
-    fallback = {"flagsExport": ("(used_root_cert : Int) (cnt_root_cert : Int)", "Int"),
-                "flagsValidate": ("(used_root_cert : Int) (cnt_root_cert : Int)", "Bool"),
-                "flagsUsed": ("(flags : Int)", "Int"), "flagsCnt": ("(flags : Int)", "Int"), "flagsMarker": ("(flags : Int)", "Bool")}
-    done = {}
-
-    def attempt(lean, build):
-        try:
-            done[lean] = build()
-            meta["functions"][lean] = "translated"
-        except (Untranslatable, AttributeError, IndexError, KeyError, TypeError, StopIteration) as exc:
-            a, r = fallback[lean]
-            done[lean] = f"-- untranslatable ({type(exc).__name__}: {exc})\ndef {lean} {a} : PyRes {r} := .error .other\n"
-            meta["functions"][lean] = f"untranslatable: {exc}"
-
-    def b_export():
-        fn = copy.deepcopy(_fun(cls, "export"))
-        body = [s for s in _SelfToName().visit(fn).body if not (isinstance(s, ast.Expr) and isinstance(s.value, ast.Constant))]
-        last = body[-1]
-        # `return pack("<L", flags)` -> `return flags` (the little-endian 4-byte packing is the model's `leEnc 4`)
-        if not (isinstance(last, ast.Return) and isinstance(last.value, ast.Call) and ast.unparse(last.value.func) == "pack"
-                and _lit(last.value.args[0]) == "<L"):
-            raise Untranslatable("export does not end in return pack('<L', flags)")
-        body[-1] = ast.Return(value=last.value.args[1])
-        return _translate(fn, "flagsExport", [("used_root_cert", "int"), ("cnt_root_cert", "int")], "int", body, env)
-
-    def b_validate():
-        fn = copy.deepcopy(_fun(cls, "validate"))
-        body = [s for s in _SelfToName().visit(fn).body if not (isinstance(s, ast.Expr) and isinstance(s.value, ast.Constant))]
-        body.append(ast.Return(value=ast.Constant(value=True)))
-        return _translate(fn, "flagsValidate", [("used_root_cert", "int"), ("cnt_root_cert", "int")], "bool", body, env)
-
-    def parse_expr(var):
-        fn = _fun(cls, "parse")
-        for n in ast.walk(fn):
-            if isinstance(n, ast.Assign) and len(n.targets) == 1 and isinstance(n.targets[0], ast.Name) and n.targets[0].id == var:
-                return n.value
-        raise Untranslatable(f"no assignment to {var} in RotMetaFlags.parse")
-
-    def b_used():
-        return _translate(None, "flagsUsed", [("flags", "int")], "int", [ast.Return(value=copy.deepcopy(parse_expr("used_root_cert")))], env)
-
-    def b_cnt():
-        return _translate(None, "flagsCnt", [("flags", "int")], "int", [ast.Return(value=copy.deepcopy(parse_expr("cnt_root_cert")))], env)
-
-    def b_marker():
-        fn = _fun(cls, "parse")
-        for n in ast.walk(fn):
-            # `if not flags & (1 << 31): raise`
-            if isinstance(n, ast.If) and isinstance(n.test, ast.UnaryOp) and isinstance(n.test.op, ast.Not) \
-                    and "flags" in ast.unparse(n.test.operand) and isinstance(n.test.operand, ast.BinOp):
-                test = ast.Compare(left=copy.deepcopy(n.test.operand), ops=[ast.NotEq()], comparators=[ast.Constant(value=0)])
-                return _translate(None, "flagsMarker", [("flags", "int")], "bool", [ast.Return(value=test)], env)
-        raise Untranslatable("marker test not found in RotMetaFlags.parse")
-
-    attempt("flagsExport", b_export)
-    attempt("flagsValidate", b_validate)
-    attempt("flagsUsed", b_used)
-    attempt("flagsCnt", b_cnt)
-    attempt("flagsMarker", b_marker)
-    for k in ("flagsExport", "flagsValidate", "flagsUsed", "flagsCnt", "flagsMarker"):
-        out.append(f"/-- translated from `{DC}::RotMetaFlags` (`self.x` rewritten to parameter `x`) -/")
-        out.append(done[k])
-    # length check of RotMetaFlags.parse: `if len(data) != 4`
-    n_len = None
-    fn = _fun(cls, "parse")
-    if fn is not None:
-        for n in ast.walk(fn):
-            if isinstance(n, ast.Compare) and ast.unparse(n.left) == "len(data)" and isinstance(n.ops[0], ast.NotEq):
-                n_len = _lit(n.comparators[0])
-    out.append(f"def flagsLen : Nat := {n_len if isinstance(n_len, int) else 0}  -- RotMetaFlags.parse: len(data) != N\n")
-
-
-def dac_hash_len(tree, out, meta):
-    """`DebugAuthenticationChallenge.get_rot_hash_length` with the database look-ups turned into Boolean parameters."""
-    env = Env()
-    cls = _cls(tree, "DebugAuthenticationChallenge")
     try:
-        fn = copy.deepcopy(_fun(cls, "get_rot_hash_length"))
-        body = []
-        flags = []
-        for s in fn.body:
-            if isinstance(s, ast.Expr) and isinstance(s.value, ast.Constant):
+        return "[" + ", ".join(f"({int(k)}, {int(v)})" for k, v in sorted(d.items())) + "]"
+    except (TypeError, ValueError):
+        return "[]"
+
+
+def _b(x):
+    return "true" if x else "false"
+
+
+def _strs(xs):
+    return "[" + ", ".join('"%s"' % str(x).replace("\\", "\\\\").replace('"', "'") for x in xs) + "]"
+
+
+def _hexb(b):
+    return "[" + ", ".join(str(x) for x in bytes(b)) + "]"
+
+
+# ------------------------------------------------------------------------------------------------ sandbox
+class Dummy:
+    """permissive stand-in for anything imported that the probes do not need"""
+
+    def __init__(self, name="?"):
+        object.__setattr__(self, "_n", name)
+
+    def __getattr__(self, a):
+        if a.startswith("__") and a.endswith("__"):
+            raise AttributeError(a)
+        return Dummy(f"{self._n}.{a}")
+
+    def __call__(self, *a, **k):
+        if len(a) == 1 and not k and isinstance(a[0], (types.FunctionType, type)):
+            return a[0]  # used as a decorator
+        return Dummy(f"{self._n}()")
+
+    def __getitem__(self, k):
+        return Dummy(f"{self._n}[]")
+
+    def __iter__(self):
+        return iter(())
+
+    def __bool__(self):
+        return False
+
+    def __repr__(self):
+        return f"<Dummy {self._n}>"
+
+    def __mro_entries__(self, bases):
+        return (object,)
+
+    def __or__(self, o):
+        return self
+
+    __ror__ = __or__
+
+
+class _NS(dict):
+    def __missing__(self, k):
+        if hasattr(builtins, k):
+            return getattr(builtins, k)
+        return Dummy(k)
+
+
+class _Strip(ast.NodeTransformer):
+    def visit_FunctionDef(self, n):
+        self.generic_visit(n)
+        n.returns = None
+        a = n.args
+        for x in a.posonlyargs + a.args + a.kwonlyargs + ([a.vararg] if a.vararg else []) + ([a.kwarg] if a.kwarg else []):
+            x.annotation = None
+        return n
+
+    def visit_Import(self, n):
+        return None
+
+    def visit_ImportFrom(self, n):
+        return None
+
+
+class SPSDKError(Exception):
+    pass
+
+
+class SPSDKKeyError(SPSDKError, KeyError):
+    pass
+
+
+class SPSDKValueError(SPSDKError, ValueError):
+    pass
+
+
+class SPSDKTypeError(SPSDKError, TypeError):
+    pass
+
+
+class SPSDKNotImplementedError(SPSDKError, NotImplementedError):
+    pass
+
+
+class HB(bytes):
+    """digest stand-in: zero bytes of the digest size that remember algorithm and data"""
+    SIZES = {"sha1": 20, "sha224": 28, "sha256": 32, "sha384": 48, "sha512": 64}
+
+    def __new__(cls, alg, data):
+        o = super().__new__(cls, cls.SIZES[alg])
+        o.alg, o.data = alg, bytes(data)
+        return o
+
+
+class _EnumHash:
+    SHA256 = "sha256"
+
+    @staticmethod
+    def from_label(label):
+        if not isinstance(label, str) or label.lower() not in HB.SIZES:
+            raise SPSDKKeyError(f"no hash {label}")
+        return label.lower()
+
+
+class Key:
+    """public key stand-in: what matters is what it exports"""
+
+    def __init__(self, raw=b"", key_size=0, coordinate_size=0, signature_size=0):
+        self.raw, self.key_size, self.coordinate_size, self.signature_size = bytes(raw), key_size, coordinate_size, signature_size
+
+    def export(self, *a, **k):
+        return self.raw
+
+    @classmethod
+    def parse(cls, data):
+        return Key(raw=data)
+
+    def __eq__(self, o):
+        return isinstance(o, Key) and o.raw == self.raw
+
+    def __hash__(self):
+        return hash(self.raw)
+
+
+class KeyRsa(Key):
+    pass
+
+
+class KeyEcc(Key):
+    pass
+
+
+class SrkTable:
+    """opaque SRK table: `len16 | body`; four keys whose export / signature sizes are set by the probe"""
+    KEYS = []
+
+    def __init__(self, raw=b""):
+        self.raw = bytes(raw) if isinstance(raw, (bytes, bytearray)) else b"\x02\x00"   # built from records: content irrelevant
+
+    @classmethod
+    def parse(cls, data):
+        n = int.from_bytes(data[:2], "little")
+        return cls(data[:n])
+
+    def export(self):
+        return self.raw
+
+    def __len__(self):
+        return len(self.raw)
+
+    def verify(self):
+        return types.SimpleNamespace(validate=lambda: None)
+
+    def update_fields(self):
+        pass
+
+    def get_source_keys(self):
+        return list(self.KEYS)
+
+    def compute_srk_hash(self, *a):
+        return HB("sha256", self.raw)
+
+    def __eq__(self, o):
+        return isinstance(o, SrkTable) and o.raw == self.raw
+
+
+class Rec:
+    """what the struct stubs saw"""
+
+    def __init__(self):
+        self.packs, self.unpacks = [], []
+
+    def clear(self):
+        del self.packs[:], self.unpacks[:]
+
+
+class Sandbox:
+    def __init__(self):
+        self.rec = Rec()
+        self.db = {}          # answers of get_db(...).get_bool/get_int: key -> value
+        self.keys = {}        # extract_public_key(path) -> Key
+        rec = self.rec
+
+        def pack(fmt, *a):
+            out = struct.pack(fmt, *a)
+            rec.packs.append((fmt, a, out))
+            return out
+
+        def unpack_from(fmt, buffer, offset=0):
+            res = struct.unpack_from(fmt, buffer, offset)
+            rec.unpacks.append((fmt, bytes(buffer), offset, res))
+            return res
+
+        def unpack(fmt, buffer):
+            res = struct.unpack(fmt, buffer)
+            rec.unpacks.append((fmt, bytes(buffer), 0, res))
+            return res
+
+        sb = self
+
+        class DbStub:
+            name = "latest"
+            features = {"dat": {}, "signing": {}}
+
+            def get_bool(self, feature, key, default=None):
+                return bool(sb.db.get(key, default if default is not None else False))
+
+            def get_int(self, feature, key, default=None):
+                return int(sb.db.get(key, default if default is not None else 0))
+
+            def get_str(self, feature, key, default=None):
+                return str(sb.db.get(key, default))
+
+        def get_hash(data, algorithm="sha256"):
+            return HB(algorithm if isinstance(algorithm, str) else "sha256", data)
+
+        def extract_public_key(file_path=None, password=None, search_paths=None, **kw):
+            return sb.keys[file_path]
+
+        def value_to_int(v, default=None):
+            return int(v, 0) if isinstance(v, str) else int(v)
+
+        self.stubs = dict(
+            pack=pack, unpack=unpack, unpack_from=unpack_from, calcsize=struct.calcsize, abc=abc, math=math, os=Dummy("os"),
+            dataclass=dataclasses.dataclass, OrderedDict=collections.OrderedDict,
+            SPSDKError=SPSDKError, SPSDKKeyError=SPSDKKeyError, SPSDKValueError=SPSDKValueError, SPSDKTypeError=SPSDKTypeError,
+            SPSDKNotImplementedError=SPSDKNotImplementedError,
+            Endianness=types.SimpleNamespace(LITTLE=types.SimpleNamespace(value="little"), BIG=types.SimpleNamespace(value="big")),
+            EnumHashAlgorithm=_EnumHash, get_hash=get_hash, PublicKey=Key, PublicKeyRsa=KeyRsa, PublicKeyEcc=KeyEcc,
+            extract_public_key=extract_public_key, value_to_int=value_to_int, get_db=lambda *a, **k: DbStub(),
+            DatabaseManager=types.SimpleNamespace(DAT="dat", SIGNING="signing"), SRKTable=SrkTable,
+            get_signature_provider=lambda *a, **k: Dummy("sp"))
+        self.mods = {}
+
+    def load(self, rel, extra=None):
+        tree = _Strip().visit(ast.parse((REPO / rel).read_text(encoding="utf-8")))
+        ast.fix_missing_locations(tree)
+        ns = _NS(self.stubs)
+        ns.update(extra or {})
+        ns["__name__"] = "sandbox_" + rel.rsplit("/", 1)[-1][:-3]
+        ns["__builtins__"] = builtins
+        import sys
+        sys.modules.setdefault(ns["__name__"], types.ModuleType(ns["__name__"]))   # dataclasses looks the module up
+        exec(compile(tree, rel, "exec"), ns)  # noqa: S102  (source under verification, imports removed, no I/O names bound)
+        self.mods[rel] = ns
+        return ns
+
+
+def attempt(meta, name, fn, default):
+    try:
+        return fn()
+    except Exception as exc:  # noqa: BLE001  (any failure of a probe = opaque stand-in)
+        meta.setdefault("probe_errors", {})[name] = f"{type(exc).__name__}: {exc}"[:300]
+        return default
+
+
+FLD = {"H": ".u16", "I": ".u32"}
+
+
+def fmt_fields(fmt):
+    """struct format -> [(code, size)] little endian only (else None)"""
+    order, fields = struct_fields(fmt)
+    if order != "<":
+        return None
+    out = []
+    for c, n in fields:
+        out.append((c, n if c == "s" else {"H": 2, "I": 4, "B": 1, "Q": 8}.get(c, 0)))
+    return out
+
+
+def lean_layout(entries):
+    return "[" + ", ".join(f"({f}, {a})" for f, a in entries) + "]"
+
+
+UNK = [(".unknown", ".unknown")]
+
+
+def decompose(out, packs, raws, width_name, arg_name):
+    """Walk the produced bytes: recorded pack outputs (in call order) and known raw byte strings.
+    -> [(kind, code, size, value)] with kind 'pack' | 'raw'; None when something cannot be attributed."""
+    res, pos, pi = [], 0, 0
+    while pos < len(out):
+        if pi < len(packs) and out.startswith(packs[pi][2], pos) and packs[pi][2]:
+            fmt, args, data = packs[pi]
+            ff = fmt_fields(fmt)
+            if ff is None or len(ff) != len(args):
+                return None
+            for (c, n), a in zip(ff, args):
+                res.append(("pack", c, n, a))
+            pos += len(data)
+            pi += 1
+            continue
+        hit = None
+        for r in sorted(raws, key=len, reverse=True):
+            if r and out.startswith(r, pos):
+                hit = r
+                break
+        if hit is None:
+            return None
+        res.append(("raw", "s", len(hit), hit))
+        pos += len(hit)
+    return res
+
+
+# ------------------------------------------------------------------------------------------------ probe values
+def distinct(n, seed):
+    """n non-zero bytes, different for different seeds"""
+    return bytes(((i * 7 + seed * 29) % 251) + 1 for i in range(n))
+
+
+INTS = {"socc": 0x11223344, "cc_socu": 0x55667788, "cc_vu": 0x99AABBCC, "cc_beacon": 0xDDEEFF01}
+INT_ARG = {"socc": ".socc", "cc_socu": ".ccSocu", "cc_vu": ".ccVu", "cc_beacon": ".beacon"}
+
+
+class RotMetaStub:
+    def __init__(self, raw):
+        self.raw = bytes(raw)
+
+    def export(self):
+        return self.raw
+
+    def __len__(self):
+        return len(self.raw)
+
+    def calculate_hash(self):
+        raise SPSDKError("stub")
+
+    def __eq__(self, o):
+        return hasattr(o, "export") and o.export() == self.raw
+
+
+def mk_dc(ns, clsname, ver, rot_meta, rk, dk, sig, uuid=None):
+    return ns[clsname](version=ns["ProtocolVersion"](ver), socc=INTS["socc"], uuid=uuid if uuid is not None else distinct(16, 1), rot_meta=rot_meta,
+                       dck_pub=dk, cc_socu=INTS["cc_socu"], cc_vu=INTS["cc_vu"], cc_beacon=INTS["cc_beacon"], rot_pub=rk, signature=sig)
+
+
+def versions_of(ns):
+    out = []
+    for v in ns["ProtocolVersion"].VERSIONS:
+        m = re.fullmatch(r"(\d+)\.(\d+)", str(v))
+        if m:
+            out.append((int(m.group(1)), int(m.group(2))))
+    return sorted(set(out))
+
+
+def pack_layout(sb, ns, clsname, probes, method):
+    """probes: [(ver, rot_meta, rk, dk, sig)] -> ([(code, [size per probe], [value per probe])], instances)"""
+    cols = None
+    for (ver, rm, rk, dk, sig) in probes:
+        inst = mk_dc(ns, clsname, ver, rm, rk, dk, sig)
+        sb.rec.clear()
+        out = getattr(inst, method)()
+        parts = decompose(out, list(sb.rec.packs), [], None, None)
+        if parts is None:
+            raise ValueError("output cannot be attributed to the recorded pack calls")
+        if cols is None:
+            cols = [(c, [n], [v]) for (_k, c, n, v) in parts]
+        else:
+            if len(parts) != len(cols) or any(p[1] != c[0] for p, c in zip(parts, cols)):
+                raise ValueError("layout differs between probes")
+            for (_k, _c, n, v), col in zip(parts, cols):
+                col[1].append(n)
+                col[2].append(v)
+    return cols
+
+
+def name_cols(cols, probes, ns, by_version):
+    """[(code, sizes, values)] -> [(DatFld, DatArg)]; widths that follow the version only are collected in `by_version`"""
+    pv = ns["ProtocolVersion"]
+    majors = [pv(p[0]).major for p in probes]
+    minors = [pv(p[0]).minor for p in probes]
+    cand = {".lenRotMeta": [len(p[1].export()) for p in probes], ".rotCoord2": [2 * p[2].coordinate_size for p in probes],
+            ".dckCoord2": [2 * p[3].coordinate_size for p in probes], ".lenDck": [len(p[3].raw) for p in probes],
+            ".lenSig": [len(p[4]) for p in probes], ".lenRotPub": [len(p[2].raw) for p in probes]}
+    out = []
+    for code, sizes, values in cols:
+        # argument
+        arg = ".unknown"
+        if code in ("H", "I"):
+            if values == majors and values != minors:
+                arg = ".major"
+            elif values == minors and values != majors:
+                arg = ".minor"
+            else:
+                for k, v in INTS.items():
+                    if values == [v] * len(values):
+                        arg = INT_ARG[k]
+        elif code == "s":
+            for a, vals in ((".uuid", [distinct(16, 1)] * len(probes)), (".rotMeta", [p[1].export() for p in probes]), (".rotPub", [p[2].raw for p in probes]),
+                            (".dck", [p[3].raw for p in probes]), (".sig", [p[4] for p in probes])):
+                if [bytes(v) for v in values] == [bytes(v) for v in vals]:
+                    arg = a
+        # field
+        if code in FLD:
+            fld = FLD[code]
+        elif code == "s":
+            w = None
+            if len(set(sizes)) == 1 and all(c != sizes for c in cand.values()):
+                w = f"(.fixed {sizes[0]})"
+            else:
+                hits = [k for k, c in cand.items() if c == sizes]
+                # a width equal to the length of the field's own argument is named after that argument
+                own = {".rotMeta": ".lenRotMeta", ".dck": ".lenDck", ".sig": ".lenSig", ".rotPub": ".lenRotPub"}.get(arg)
+                if own in hits:
+                    w = own
+                elif len(hits) == 1:
+                    w = hits[0]
+                elif not hits:
+                    by_version.setdefault(tuple(sizes), []).append(arg)
+                    w = ("byver", tuple(sizes))
+            fld = ("bytes", w)
+        else:
+            fld = ".unknown"
+        out.append((fld, arg))
+    return out
+
+
+def finish_layout(named, rsa_key=None, rsa_sig=None):
+    res = []
+    for fld, arg in named:
+        if isinstance(fld, tuple):
+            w = fld[1]
+            if isinstance(w, tuple):
+                w = ".rsaKey" if w[1] == rsa_key else ".rsaSig" if w[1] == rsa_sig else ".unknown"
+            fld = f"(.bytes {w or '.unknown'})"
+        res.append((fld, arg))
+    return res
+
+
+# ------------------------------------------------------------------------------------------------ parse side
+def parse_layout(sb, ns, clsname, insts, cand_fn, before=None):
+    """insts: consistent credentials; the layout parse() reads, by offset -> [(DatFld, DatArg)]"""
+    per = []
+    for inst in insts:
+        if before:
+            before(inst)
+        data = inst.export()
+        sb.rec.clear()
+        parsed = ns[clsname].parse(data)
+        ent = {}
+        for fmt, buf, off, res in sb.rec.unpacks:
+            ff = fmt_fields(fmt)
+            if ff is None or len(ff) != len(res):
+                raise ValueError("unpack format not understood")
+            if buf == data:
+                base = 0
+            else:
+                base = data.find(buf)
+                if base < 0 or data.find(buf, base + 1) >= 0:
+                    raise ValueError("an unpacked slice cannot be located in the input")
+            p = base + off
+            for (c, n), v in zip(ff, res):
+                ent.setdefault(p, (c, n, v))
+                p += n
+        offs = sorted(ent)
+        rows, pos = [], 0
+        for o in offs:
+            c, n, v = ent[o]
+            if o < pos:
+                continue      # read twice (e.g. the version words): first reading counts
+            if o > pos:
+                rows.append(("gap", o - pos, data[pos:o]))
+            rows.append((c, n, v))
+            pos = o + n
+        if pos < len(data):
+            rows.append(("gap", len(data) - pos, data[pos:]))
+        named = []
+        for c, n, v in rows:
+            args = set()
+            if c == "gap":
+                if pyeq(lambda: parsed.rot_meta.export() == v and inst.rot_meta.export() == v):
+                    args.add(".rotMeta")
+                named.append(("s", n, args))
                 continue
-            if isinstance(s, ast.Assign) and isinstance(s.value, ast.Call):
-                src = ast.unparse(s.value)
-                t = s.targets[0].id
-                if src.startswith("get_db("):
-                    continue
-                if "dat_based_on_ele" in src or "get_bool" in src:
-                    flags.append(t)
-                    continue
-            body.append(s)
-        if sorted(flags) != ["based_on_ele", "dat_is_using_sha256_always"]:
-            raise Untranslatable(f"unexpected database look-ups {flags}")
-        text = _translate(fn, "dacRotHashLength", [("based_on_ele", "bool"), ("dat_is_using_sha256_always", "bool"),
-                                                   ("major_ver", "int"), ("minor_ver", "int")], "int", body, env)
-        meta["functions"]["dacRotHashLength"] = "translated"
-    except (Untranslatable, AttributeError, IndexError, TypeError) as exc:
-        text = (f"-- untranslatable ({exc})\ndef dacRotHashLength (based_on_ele : Bool) (dat_is_using_sha256_always : Bool) "
-                "(major_ver : Int) (minor_ver : Int) : PyRes Int := .error .other\n")
-        meta["functions"]["dacRotHashLength"] = f"untranslatable: {exc}"
-    out.append(f"/-- translated from `{DAC}::DebugAuthenticationChallenge.get_rot_hash_length` (database flags as parameters) -/")
-    out.append(text)
+            if c in ("H", "I"):
+                for a, want, got in ((".major", inst.version.major, lambda: parsed.version.major), (".minor", inst.version.minor, lambda: parsed.version.minor),
+                                     (".socc", inst.socc, lambda: parsed.socc), (".ccSocu", inst.cc_socu, lambda: parsed.cc_socu),
+                                     (".ccVu", inst.cc_vu, lambda: parsed.cc_vu), (".beacon", inst.cc_beacon, lambda: parsed.cc_beacon)):
+                    if v == want and pyeq(lambda g=got, w=want: g() == w):
+                        args.add(a)
+            elif c == "s":
+                for a, want, got in ((".uuid", inst.uuid, lambda: parsed.uuid), (".dck", inst.dck_pub.raw, lambda: parsed.dck_pub.raw),
+                                     (".rotPub", inst.rot_pub.raw, lambda: parsed.rot_pub.raw), (".sig", inst.signature, lambda: parsed.signature),
+                                     (".rotMeta", inst.rot_meta.export(), lambda: parsed.rot_meta.export())):
+                    if bytes(v) == bytes(want) and pyeq(lambda g=got, w=want: bytes(g()) == bytes(w)):
+                        args.add(a)
+            named.append((c, n, args))
+        per.append(named)
+    if any(len(p) != len(per[0]) or [x[0] for x in p] != [x[0] for x in per[0]] for p in per):
+        raise ValueError("parse layout differs between probes")
+    # an attribute is attributed to a position only if every probe agrees (distinguishes major / minor when one probe has them equal)
+    for i in range(len(per[0])):
+        common = set.intersection(*[p[i][2] for p in per])
+        arg = common.pop() if len(common) == 1 else ".unknown"
+        for p in per:
+            p[i] = (p[i][0], p[i][1], arg)
+    cand = cand_fn(insts)
+    out = []
+    for i, (c, _n, arg) in enumerate(per[0]):
+        sizes = [p[i][1] for p in per]
+        if c in FLD:
+            out.append((FLD[c], arg))
+        elif c == "s":
+            if len(set(sizes)) == 1 and all(v != sizes for v in cand.values()):
+                out.append((f"(.bytes (.fixed {sizes[0]}))", arg))
+            else:
+                hits = [k for k, v in cand.items() if v == sizes]
+                if arg == ".rotMeta" and ".lenRotMeta" in hits:
+                    hits = [".lenRotMeta"]
+                out.append((f"(.bytes {hits[0] if len(hits) == 1 else '.unknown'})", arg))
+        else:
+            out.append((".unknown", arg))
+    return out
+
+
+def pyeq(f):
+    try:
+        return bool(f())
+    except Exception:  # noqa: BLE001
+        return False
+
+
+# ------------------------------------------------------------------------------------------------ RotMeta probes
+def probe_rotmeta_rsa(ns):
+    R = ns["RotMetaRSA"]
+    size = len(R([]).export())
+    data = distinct(size, 3)
+    items = R.parse(data).rot_items
+    count = len(items)
+    widths = {len(i) for i in items}
+    item = widths.pop() if len(widths) == 1 else 0
+    if item and (b"".join(items) != data[:count * item] or R(items).export() != data[:count * item] + bytes(size - count * item)):
+        item = 0
+    # all-zero items are dropped, the others keep their order
+    if item and count >= 2:
+        z = data[:item] + bytes(item) + data[2 * item:]
+        if R.parse(z).rot_items != [i for k, i in enumerate(items) if k != 1]:
+            item = 0
+    min_len = None
+    for n in range(0, size + 65):
+        try:
+            R.parse(distinct(n, 5))
+            min_len = n
+            break
+        except SPSDKError:
+            continue
+    return size, count, item, min_len if min_len is not None else 0
+
+
+def probe_rsa_max_keys(sb, ns):
+    R = ns["RotMetaRSA"]
+    best = 0
+    for n in range(1, 10):
+        sb.keys = {f"k{i}": KeyRsa(distinct(259, i)) for i in range(n)}
+        try:
+            R.load_from_config({"rot_meta": [f"k{i}" for i in range(n)], "rot_id": 0})
+            best = n
+        except SPSDKError:
+            break
+    return best
+
+
+def probe_flags(ns):
+    F = ns["RotMetaFlags"]
+    exp, ctor, lens = [], [], set()
+    for u in range(16):
+        for c in range(16):
+            try:
+                b = F(u, c).export()
+            except SPSDKError:
+                continue
+            ctor.append((u, c))
+            lens.add(len(b))
+            exp.append(((u, c), int.from_bytes(b, "little")))
+    n = lens.pop() if len(lens) == 1 else 0
+    for bad in (n - 1, n + 1):
+        try:
+            F.parse(bytes([0x80] * max(bad, 0)))
+            n = 0
+        except SPSDKError:
+            pass
+    words = []
+    valid = [w for _, w in exp]
+    for u in range(16):
+        for c in range(16):
+            w = (u << 8) | (c << 4)
+            words += [w | (1 << 31), w]
+    for w in valid:
+        for bit in list(range(0, 4)) + list(range(12, 31)):
+            words.append(w | (1 << bit))
+    x = 0x9E3779B9
+    for _ in range(300):
+        x = (x * 1103515245 + 12345) & 0xFFFFFFFF
+        words.append(x)
+        words.append(x | (1 << 31))
+    res, seen = [], set()
+    for w in words:
+        if w in seen:
+            continue
+        seen.add(w)
+        try:
+            f = F.parse(w.to_bytes(n or 4, "little"))
+            res.append((w, (f.used_root_cert, f.cnt_root_cert)))
+        except SPSDKError:
+            res.append((w, None))
+    return {"export": exp, "ctor": ctor, "len": n, "parse": res}
+
+
+def probe_ecc_item_width(ns, hash_tbl):
+    F, E = ns["RotMetaFlags"], ns["RotMetaEcc"]
+    out = {}
+    for coord in sorted(hash_tbl or {}):
+        sub = E._get_subclass(coord)
+        data = F(1, 3).export() + distinct(400, coord)
+        items = sub.parse(data).rot_items
+        ws = {len(i) for i in items}
+        if len(items) == 3 and len(ws) == 1 and b"".join(items) == data[len(F(1, 3).export()):][:3 * len(items[0])]:
+            w = ws.pop()
+            one = sub.parse(F(0, 1).export() + distinct(200, 9))
+            if one.rot_items == [] and sub(F(1, 3), items).export() == data[:len(F(1, 3).export()) + 3 * w]:
+                out[coord] = w
+    return out
+
+
+def _hash_code(f):
+    try:
+        h = f()
+        return int(h.alg[3:]) if isinstance(h, HB) else 1
+    except SPSDKError:
+        return 0
+    except Exception:  # noqa: BLE001
+        return 1
+
+
+def probe_ecc_table_hash(ns):
+    F, E = ns["RotMetaFlags"], ns["RotMetaEcc"]
+    out = {}
+    for w in (16, 20, 32, 48, 64, 66):
+        codes = set()
+        for cnt in (2, 3, 4):
+            rm = E(F(0, cnt), [distinct(w, 10 + i) for i in range(cnt)])
+            codes.add(_hash_code(rm.calculate_hash))
+            if codes and max(codes) > 1:
+                h = rm.calculate_hash()
+                if h.data != b"".join(rm.rot_items):
+                    codes.add(1)
+        out[w] = codes.pop() if len(codes) == 1 else 1
+    return out
+
+
+def probe_single_key_hash(ns, coord_tbl):
+    klass = ns["DebugCredentialCertificateEcc"]
+    out = {}
+    bits_of = {32: 256, 48: 384, 66: 521, 24: 192}
+    for coord in sorted(set((coord_tbl or {}).values()) | {24}):
+        rk = KeyEcc(distinct(2 * coord, 11), key_size=bits_of.get(coord, coord * 8), coordinate_size=coord)
+        inst = mk_dc(ns, "DebugCredentialCertificateEcc", "2.0", RotMetaStub(b"\x10\x01\x00\x80"), rk, rk, distinct(2 * coord, 12))
+        code = _hash_code(inst.calculate_hash)
+        if code > 1 and inst.calculate_hash().data != rk.raw:
+            code = 1
+        out[coord] = code
+    del klass
+    return out
+
+
+# ------------------------------------------------------------------------------------------------ creation
+KINDS = [(0, 2048), (0, 4096), (1, 256), (1, 384), (1, 521)]
+
+
+def _key_of(kind, bits, seed):
+    if kind == 0:
+        return KeyRsa(distinct(bits // 8 + 3, seed), key_size=bits)
+    c = (bits + 7) // 8
+    return KeyEcc(distinct(2 * c, seed), key_size=bits, coordinate_size=c)
+
+
+def probe_create(sb, ns):
+    D = ns["DebugCredentialCertificate"]
+    pv = ns["ProtocolVersion"]
+    names = {"DebugCredentialCertificateRsa": 0, "DebugCredentialCertificateEcc": 1, "DebugCredentialEdgeLockEnclave": 2}
+    out = []
+    for ele in (False, True):
+        sb.db = {"socc": 0x4D58005E if ele else 4, "based_on_ele": ele, "ele_cnt_version": 1, "pss_padding": False}
+        for rk, rb in KINDS:
+            for dk, dbits in KINDS:
+                for ver in [None] + [f"{a}.{b}" for a, b in versions_of(ns)]:
+                    for ul in (0, 15, 16, 17):
+                        n = 4 if ele else 2
+                        sb.keys = {f"rot{i}": _key_of(rk, rb, 20 + i) for i in range(n)}
+                        sb.keys["dck"] = _key_of(dk, dbits, 30)
+                        cfg = {"family": "fam", "uuid": "ab" * ul, "cc_socu": 1, "cc_vu": 2, "cc_beacon": 3, "rot_meta": [f"rot{i}" for i in range(n)], "rot_id": 1,
+                               "rotk": "rot1", "dck": "dck"}
+                        try:
+                            v = pv(ver) if ver else pv.from_public_key(sb.keys["rot1"])
+                            cls = names.get(D._get_class("fam", v).__name__)
+                        except Exception:  # noqa: BLE001
+                            continue
+                        if cls is None:
+                            continue
+                        try:
+                            d = D.create_from_yaml_config(dict(cfg), version=pv(ver) if ver else None)
+                            res = 0 if names.get(type(d).__name__) == cls else 2
+                        except SPSDKError:
+                            res = 1
+                        except Exception:  # noqa: BLE001
+                            res = 2
+                        row = [cls, v.major, v.minor, ul, rk, rb, dk, dbits, res]
+                        if row not in out:
+                            out.append(row)
+    sb.db = {}
+    return sorted(out)
+
+
+# ------------------------------------------------------------------------------------------------ challenge
+DAC_INTS = {"socc": 0x11223344, "rotid_rkh_revocation": 0x0A0B0C0D, "cc_soc_pinned": 0x21222324, "cc_soc_default": 0x31323334, "cc_vu": 0x41424344}
+DAC_ARG = {"socc": ".socc", "rotid_rkh_revocation": ".revocation", "cc_soc_pinned": ".socPinned", "cc_soc_default": ".socDefault", "cc_vu": ".ccVu",
+           "uuid": ".uuid", "rotid_rkth_hash": ".rkthHash", "challenge": ".challenge"}
+
+
+def probe_dac(sb, ns):
+    class DcStub:
+        @staticmethod
+        def get_family_ambassador(socc):
+            return "fam"
+
+        @staticmethod
+        def dat_based_on_ele(family):
+            return bool(sb.db.get("based_on_ele", False))
+    dn = sb.load(DAC, {"DebugCredentialCertificate": DcStub, "ProtocolVersion": ns["ProtocolVersion"]})
+    A = dn["DebugAuthenticationChallenge"]
+    pv = ns["ProtocolVersion"]
+    # hash width table
+    tbl = []
+    for e in (False, True):
+        for s_ in (False, True):
+            sb.db = {"based_on_ele": e, "dat_is_using_sha256_always": s_}
+            for a in range(4):
+                for b in range(4):
+                    tbl.append(((e, s_, a, b), int(A.get_rot_hash_length("fam", a, b))))
+    sb.db = {}
+
+    def mk(ver, ul, hl, cl, seed):
+        return A(version=pv(ver), uuid=distinct(ul, seed), rotid_rkth_hash=distinct(hl, seed + 1), challenge=distinct(cl, seed + 2), **DAC_INTS)
+    # export: two probes with different lengths of the byte strings (raw concatenation vs fixed struct field)
+    cols = None
+    insts = [mk("2.1", 16, 48, 32, 1), mk("2.2", 10, 20, 30, 5)]
+    for inst in insts:
+        sb.rec.clear()
+        outb = inst.export()
+        parts = decompose(outb, list(sb.rec.packs), [inst.uuid, inst.rotid_rkth_hash, inst.challenge], None, None)
+        if parts is None:
+            raise ValueError("DAC export cannot be attributed")
+        if cols is None:
+            cols = [(k, c, [n], [v]) for k, c, n, v in parts]
+        else:
+            if len(parts) != len(cols):
+                raise ValueError("DAC export layout differs between probes")
+            for (k, c, n, v), col in zip(parts, cols):
+                col[2].append(n)
+                col[3].append(v)
+    exp = []
+    for k, c, sizes, values in cols:
+        arg = ".unknown"
+        if c in ("H", "I"):
+            if values == [i.version.major for i in insts] and values != [i.version.minor for i in insts]:
+                arg = ".major"
+            elif values == [i.version.minor for i in insts]:
+                arg = ".minor"
+            for nm, v in DAC_INTS.items():
+                if values == [v] * 2:
+                    arg = DAC_ARG[nm]
+            exp.append((FLD.get(c, ".unknown"), arg))
+        else:
+            for nm in ("uuid", "rotid_rkth_hash", "challenge"):
+                if [bytes(v) for v in values] == [getattr(i, nm) for i in insts]:
+                    arg = DAC_ARG[nm]
+            own = [len(v) for v in values]
+            exp.append((".raw" if sizes == own and k == "raw" or (sizes == own and len(set(sizes)) > 1) else f"(.bytes (.fixed {sizes[0]}))" if len(set(sizes)) == 1 else ".unknown", arg))
+    # parse: consistent challenges for two versions with different hash widths
+    def hl_of(a, b):
+        return dict(tbl)[(False, False, a, b)]
+    pins = [mk("2.1", 16, hl_of(2, 1), 32, 11), mk("2.2", 16, hl_of(2, 2), 32, 15)]
+    per = []
+    for inst in pins:
+        data = inst.export()
+        sb.rec.clear()
+        p = A.parse(data)
+        ent = {}
+        for fmt, buf, off, res in sb.rec.unpacks:
+            ff = fmt_fields(fmt)
+            base = 0 if buf == data else data.find(buf)
+            if ff is None or base < 0:
+                raise ValueError("DAC unpack not understood")
+            q = base + off
+            for (c, n), v in zip(ff, res):
+                ent.setdefault(q, (c, n, v))
+                q += n
+        rows, pos = [], 0
+        for o in sorted(ent):
+            if o != pos:
+                raise ValueError("DAC parse does not read contiguously")
+            c, n, v = ent[o]
+            args = set()
+            if c in ("H", "I"):
+                for a, want, got in ((".major", inst.version.major, p.version.major), (".minor", inst.version.minor, p.version.minor)):
+                    if v == want == got:
+                        args.add(a)
+                for nm, want in DAC_INTS.items():
+                    if v == want == getattr(p, nm):
+                        args.add(DAC_ARG[nm])
+            else:
+                for nm in ("uuid", "rotid_rkth_hash", "challenge"):
+                    if bytes(v) == getattr(inst, nm) == getattr(p, nm):
+                        args.add(DAC_ARG[nm])
+            rows.append((c, n, args))
+            pos = o + n
+        if pos != len(data):
+            raise ValueError("DAC parse does not consume the challenge")
+        per.append(rows)
+    layout = []
+    for i in range(len(per[0])):
+        common = set.intersection(*[p[i][2] for p in per])
+        arg = common.pop() if len(common) == 1 else ".unknown"
+        c = per[0][i][0]
+        sizes = [p[i][1] for p in per]
+        if c in FLD:
+            layout.append((FLD[c], arg))
+        elif len(set(sizes)) == 1:
+            layout.append((f"(.bytes (.fixed {sizes[0]}))", arg))
+        elif sizes == [hl_of(2, 1), hl_of(2, 2)]:
+            layout.append(("(.bytes .hashLength)", arg))
+        else:
+            layout.append(("(.bytes .unknown)", arg))
+    # swapped version words: words (1, 2) on the wire -> version 2.1, hash width taken for (major 1, minor 2)
+    sb.db = {"dac_version_is_swapped": True}
+    swap = False
+    try:
+        w = hl_of(1, 2)
+        data = struct.pack("<2HL16sL", 1, 2, 7, distinct(16, 1), 9) + distinct(w, 2) + struct.pack("<3L", 1, 2, 3) + distinct(32, 3)
+        p = A.parse(data)
+        swap = (p.version.major, p.version.minor) == (2, 1) and p.challenge == distinct(32, 3) and p.rotid_rkth_hash == distinct(w, 2)
+    except Exception:  # noqa: BLE001
+        swap = False
+    sb.db = {}
+    return {"export": exp, "parse": layout, "hash": tbl, "swap": swap}
+
+
+# ------------------------------------------------------------------------------------------------ response
+def probe_dar(sb, ns):
+    rn = sb.load(DAR, {"DebugCredentialCertificate": ns["DebugCredentialCertificate"], "ProtocolVersion": ns["ProtocolVersion"],
+                       "DebugCredentialEdgeLockEnclaveV2": ns["DebugCredentialEdgeLockEnclaveV2"]})
+    vm = rn["_version_mapping"]
+    DCM, SIG = b"<<credential-bytes>>", b"<<signature>>"
+    BEACON = 0xA1B2C3D4
+    res = {}
+    for ver, klass in vm.items():
+        m = re.fullmatch(r"(\d+)\.(\d+)", str(ver))
+        if not m:
+            continue
+        shapes = []
+        for ul, seed in ((16, 1), (10, 5)):
+            dac = types.SimpleNamespace(uuid=distinct(ul, seed), challenge=distinct(32, seed + 1), version=None, socc=0)
+            cred = types.SimpleNamespace(export=lambda: DCM, uuid=distinct(16, 40), version=None, socc=0)
+            signed = []
+            sp = types.SimpleNamespace(sign=lambda d, s=signed: (s.append(bytes(d)), SIG)[1])
+            inst = object.__new__(klass)
+            inst.debug_credential, inst.auth_beacon, inst.dac, inst.sign_provider, inst.family, inst.revision = cred, BEACON, dac, sp, "fam", "latest"
+            sb.rec.clear()
+            common = inst._get_common_data()
+            parts = decompose(common, list(sb.rec.packs), [DCM, dac.uuid, cred.uuid, dac.challenge], None, None)
+            if parts is None:
+                raise ValueError("common data cannot be attributed")
+            lay = []
+            for k, c, n, v in parts:
+                if c in ("H", "I"):
+                    lay.append((FLD[c], ".authBeacon" if v == BEACON else ".unknown", n))
+                else:
+                    arg = ".dcExport" if v == DCM else ".dacUuid" if bytes(v) == dac.uuid else ".unknown"
+                    lay.append(("raw" if k == "raw" else "s", arg, n))
+            msg = inst._get_data_for_signature()
+            exp = inst.export()
+            ok_msg = msg == common + dac.challenge
+            ok_exp = exp == common + SIG and signed and signed[-1] == msg
+            shapes.append((lay, ok_msg, ok_exp))
+        lay = []
+        for a, b in zip(shapes[0][0], shapes[1][0]):
+            if a[0] == "raw" or a[0] in (".u16", ".u32"):
+                lay.append((".raw" if a[0] == "raw" else a[0], a[1] if a[1] == b[1] else ".unknown"))
+            else:
+                lay.append((f"(.bytes (.fixed {a[2]}))" if a[2] == b[2] else ".raw" if (a[2], b[2]) == (16, 10) else ".unknown", a[1] if a[1] == b[1] else ".unknown"))
+        if len(shapes[0][0]) != len(shapes[1][0]):
+            lay = UNK
+        res[(int(m.group(1)), int(m.group(2)))] = (lay, all(s[1] for s in shapes), all(s[2] for s in shapes))
+    rsa = [v for k, v in sorted(res.items()) if k[0] == 1]
+    ecc = [v for k, v in sorted(res.items()) if k[0] == 2]
+    base = rsa[0][0] if rsa else UNK
+    eccl = ecc[0][0] if ecc else UNK
+    uses = [(k, v[0] == eccl and v[0] != base) for k, v in sorted(res.items())]
+    uniform = all(v[0] in (base, eccl) for v in res.values()) and all(v[0] == base for v in rsa) and all(v[0] == eccl for v in ecc)
+    sign = [(".raw", ".skip"), (".raw", ".dacChallenge")] if res and all(v[1] for v in res.values()) else UNK
+    export = [(".raw", ".skip"), (".raw", ".signature")] if res and all(v[2] for v in res.values()) else UNK
+    return {"base": base, "ecc": eccl, "sign": sign, "export": export, "uses": uses, "uniform": uniform}
 
 
 # ------------------------------------------------------------------------------------------------ database
@@ -573,14 +1104,7 @@ def _b(x):
 
 
 # ------------------------------------------------------------------------------------------------ EdgeLock v2
-CERT = "spsdk/image/ahab/ahab_certificate.py"
-
-
-def _strs(xs):
-    return "[" + ", ".join('"%s"' % str(x).replace("\\", "\\\\").replace('"', "'") for x in xs) + "]"
-
-
-def v2_section(tree, out, meta):
+def v2_section(sb, ns, out, meta):
     """What the model of the v2 credential depends on (the byte widths come from C06's Generated/AhabConsts.certificateLayout)."""
     try:
         ctree = parse(CERT)
@@ -649,317 +1173,246 @@ def v2_section(tree, out, meta):
         inv = []
     out.append(f"def certParseTargets : List String := {_strs(targets)}  -- AhabCertificate.parse: targets of unpack(image_format, ...) by the attribute they feed")
     out.append(f"def certInvertedCheck : List String := {_strs(inv)}")
+    cenv = ModuleEnv(ctree) if ctree else None
+
+    def _class_const(_c, k):
+        try:
+            return cenv.cls("AhabCertificate").value(k)
+        except (NotConst, AttributeError):
+            return None
     consts = {k: _class_const(cert, k) for k in ("PERMISSION_DATA_SIZE", "UUID_SIZE")}
     out.append(f"def certPermDataSize : Nat := {consts['PERMISSION_DATA_SIZE'] if isinstance(consts['PERMISSION_DATA_SIZE'], int) else 0}")
     out.append(f"def certUuidSize : Nat := {consts['UUID_SIZE'] if isinstance(consts['UUID_SIZE'], int) else 0}")
     perm_oem = _class_const(cert, "PERM_OEM")
     out.append(f"def certPermDebug : Nat := {perm_oem.get('debug', 0) if isinstance(perm_oem, dict) else 0}  -- PERM_OEM['debug']")
-    # DebugCredentialEdgeLockEnclaveV2
-    v2 = _cls(tree, "DebugCredentialEdgeLockEnclaveV2")
-    init = _fun(v2, "__init__")
-    socc_expr = "?"
-    if init is not None:
-        canon = Canon(init, {})
-        for n in ast.walk(init):
-            if isinstance(n, ast.Call) and ast.unparse(n.func) == "super().__init__":
-                for kw in n.keywords:
-                    if kw.arg == "socc":
-                        socc_expr = canon.text(kw.value)
-    out.append(f"def v2CtorSoccExpr : String := {_strs([socc_expr])[1:-1]}  -- DebugCredentialEdgeLockEnclaveV2.__init__: socc= argument of the base initializer")
-    # permission data: pack("<LLL", socc, socu, 0) in create_from_yaml_config; positions read / written by the three properties
-    cr = _fun(v2, "create_from_yaml_config")
-    create = []
-    if cr is not None:
-        for n in ast.walk(cr):
-            if isinstance(n, ast.Call) and isinstance(n.func, ast.Name) and n.func.id == "pack" and _lit(n.args[0]) == "<LLL":
-                create = [ast.unparse(a) for a in n.args[1:]]
-    out.append(f"def v2CreatePermData : List String := {_strs(create)}  -- create_from_yaml_config: pack('<LLL', ...)")
-    props = []
-    for st in (v2.body if v2 else []):
-        if isinstance(st, ast.FunctionDef) and st.name in ("socc", "socu", "beacon"):
-            setter = any(isinstance(d, ast.Attribute) and d.attr == "setter" for d in st.decorator_list)
-            for n in ast.walk(st):
-                if not setter and isinstance(n, ast.Assign) and isinstance(n.targets[0], ast.Tuple) and isinstance(n.value, ast.Call) \
-                        and ast.unparse(n.value.func) == "unpack":
-                    pos = [i for i, e in enumerate(n.targets[0].elts) if isinstance(e, ast.Name) and e.id != "_"]
-                    props.append(f"{st.name}:get:{_lit(n.value.args[0])}:{pos}")
-                if setter and isinstance(n, ast.Call) and isinstance(n.func, ast.Name) and n.func.id == "pack":
-                    props.append(f"{st.name}:set:{_lit(n.args[0])}:" + ",".join(ast.unparse(a) for a in n.args[1:]))
-    out.append(f"def v2PermProps : List String := {_strs(props)}")
+    # DebugCredentialEdgeLockEnclaveV2 (probed): what the wrapper does with the permission data of the certificate it is given
+    def wrapper():
+        V2 = ns["DebugCredentialEdgeLockEnclaveV2"]
+
+        class Rec2:
+            def get_public_key(self):
+                return Key(b"k")
+        V2.__init__.__globals__["SRKRecordV2"] = Rec2
+        keeps = zeroes = True
+        props = True
+        for socc, socu, beacon in ((0x11223344, 0x55667788, 0x99AABBCC), (0x80000001, 7, 0)):
+            cert = types.SimpleNamespace(permission_data=struct.pack("<LLL", socc, socu, beacon), _uuid=distinct(16, 1), public_key_0=Rec2())
+            d = V2(cert)
+            got = struct.unpack("<LLL", cert.permission_data[:12])
+            keeps &= got == (socc, socu, beacon)
+            zeroes &= got == (0, socu, beacon)
+            props &= (d.socc, d.socu, d.beacon) == got
+            d.socu = 0x01020304
+            props &= struct.unpack("<LLL", cert.permission_data[:12]) == (got[0], 0x01020304, got[2])
+            d.beacon = 0x0A0B
+            props &= struct.unpack("<LLL", cert.permission_data[:12]) == (got[0], 0x01020304, 0x0A0B)
+            d.socc = 0x7172
+            props &= struct.unpack("<LLL", cert.permission_data[:12]) == (0x7172, 0x01020304, 0x0A0B)
+        # create_from_yaml_config: permission data handed to AhabCertificate.load_from_config
+        seen = {}
+
+        class CertStub:
+            @staticmethod
+            def load_from_config(config=None, search_paths=None, **kw):
+                seen.update(config)
+                return types.SimpleNamespace(permission_data=bytes(config["permission_data"]), _uuid=None, public_key_0=Rec2())
+        V2.create_from_yaml_config.__func__.__globals__["AhabCertificate"] = CertStub
+        sb.db = {"socc": 0x4D58005E}
+        V2.create_from_yaml_config({"family": "fam", "cc_socu": "0x0FFF"})
+        sb.db = {}
+        create_ok = bytes(seen.get("permission_data", b"")) == struct.pack("<LLL", 0x4D58005E, 0xFFF, 0) and seen.get("permissions") == ["debug"]
+        return keeps, zeroes, props, create_ok
+    keeps, zeroes, props, create_ok = attempt(meta, "EdgeLock v2 wrapper", wrapper, (False, False, False, False))
+    out.append(f"def v2CtorKeepsSocc : Bool := {_b(keeps)}  -- DebugCredentialEdgeLockEnclaveV2(certificate) leaves socc || socu || beacon of the permission data as they are")
+    out.append(f"def v2CtorZeroesSocc : Bool := {_b(zeroes)}  -- ... overwrites the SoC class with 0")
+    out.append(f"def v2PermPropsOk : Bool := {_b(props)}  -- socc / socu / beacon read and write words 0 / 1 / 2 of the permission data (`<LLL`)")
+    out.append(f"def v2CreatePermOk : Bool := {_b(create_ok)}  -- create_from_yaml_config asks for permission ['debug'] and permission data socc || cc_socu || 0")
     out.append("")
 
 
 # ------------------------------------------------------------------------------------------------ main
 def gen_DatConsts():
-    del UNKNOWN_W[:]
-    meta = {"functions": {}, "sources": [DC, DAC, DAR, "spsdk/data/devices/*/database.yaml"]}
+    meta = {"sources": [DC, DAC, DAR, CERT, "spsdk/data/devices/*/database.yaml"], "method": "sandbox probes + static reading"}
     out = ["import SpsdkVerif.Base.Py", "import SpsdkVerif.Base.DatTypes", "", "namespace SpsdkVerif.Generated.DatConsts", "open SpsdkVerif", ""]
+    sb = Sandbox()
+    ns = attempt(meta, "load debug_credential", lambda: sb.load(DC), None)
     tree = parse(DC)
+    env = attempt(meta, "consteval", lambda: ModuleEnv(tree), None)
 
-    # ---- protocol versions
-    pv = _cls(tree, "ProtocolVersion")
-    versions = _class_const(pv, "VERSIONS") or []
-    vpairs = []
-    for v in versions:
-        m = re.fullmatch(r"(\d+)\.(\d+)", str(v))
-        if m:
-            vpairs.append((int(m.group(1)), int(m.group(2))))
-    out.append("def versions : List (Nat × Nat) := [" + ", ".join(f"({a}, {b})" for a, b in vpairs) + "]  -- ProtocolVersion.VERSIONS")
-    meta["versions"] = versions
-    fpk = _fun(pv, "from_public_key")
-    bits = []
-    if fpk is not None:
-        for n in ast.walk(fpk):
-            if isinstance(n, ast.Subscript) and isinstance(n.value, ast.Dict):
-                bits.append(_lit(n.value))
-    out.append(f"def rsaMinorOfBits : List (Nat × Nat) := {pairs(bits[0] if len(bits) > 0 else None)}  -- from_public_key (RSA)")
-    out.append(f"def eccMinorOfBits : List (Nat × Nat) := {pairs(bits[1] if len(bits) > 1 else None)}  -- from_public_key (ECC)")
+    def cconst(cls, name):
+        try:
+            return env.cls(cls).value(name)
+        except (NotConst, AttributeError):
+            return None
 
-    # ---- credential classes
-    rsa, ecc, ele = (_cls(tree, n) for n in ("DebugCredentialCertificateRsa", "DebugCredentialCertificateEcc", "DebugCredentialEdgeLockEnclave"))
-    rbase, rsig, rdicts = data_format(rsa)
-    out.append(f"def rsaKeySize : List (Nat × Nat) := {pairs(rdicts[0])}  -- get_data_format: width of the two key fields by version.minor")
-    out.append(f"def rsaSigSize : List (Nat × Nat) := {pairs(rdicts[1])}  -- get_data_format: width of the signature field by version.minor")
-    out.append(f"def rsaSizeIndexedByMinor : Bool := {_b(rdicts[0] is not None and rdicts[1] is not None)}")
-    out.append(f"def eccCoordSize : List (Nat × Nat) := {pairs(_class_const(ecc, 'COORDINATE_SIZE'))}  -- DebugCredentialCertificateEcc.COORDINATE_SIZE")
-    rme = _cls(tree, "RotMetaEcc")
-    out.append(f"def eccHashBits : List (Nat × Nat) := {pairs(_class_const(rme, 'HASH_SIZES'))}  -- RotMetaEcc.HASH_SIZES (coordinate size -> SHA-2 width)")
+    # ---- protocol versions, key size -> minor version
+    versions = attempt(meta, "versions", lambda: versions_of(ns), [])
+    out.append("def versions : List (Nat × Nat) := [" + ", ".join(f"({a}, {b})" for a, b in versions) + "]  -- ProtocolVersion.VERSIONS (sorted)")
+    meta["versions"] = [f"{a}.{b}" for a, b in versions]
+
+    def key_map(kcls, major):
+        d = {}
+        for bits in (512, 1024, 2048, 3072, 4096, 8192, 160, 192, 224, 256, 320, 384, 512, 521):
+            try:
+                v = ns["ProtocolVersion"].from_public_key(kcls(key_size=bits))
+                if v.major == major:
+                    d[bits] = v.minor
+            except Exception:  # noqa: BLE001
+                pass
+        return d
+    out.append(f"def rsaMinorOfBits : List (Nat × Nat) := {pairs(attempt(meta, 'rsaMinorOfBits', lambda: key_map(KeyRsa, 1), None))}  -- from_public_key (RSA), probed")
+    out.append(f"def eccMinorOfBits : List (Nat × Nat) := {pairs(attempt(meta, 'eccMinorOfBits', lambda: key_map(KeyEcc, 2), None))}  -- from_public_key (ECC), probed")
+    coord_tbl = cconst("DebugCredentialCertificateEcc", "COORDINATE_SIZE")
+    hash_tbl = cconst("RotMetaEcc", "HASH_SIZES")
+    out.append(f"def eccCoordSize : List (Nat × Nat) := {pairs(coord_tbl)}  -- DebugCredentialCertificateEcc.COORDINATE_SIZE (by value, sorted)")
+    out.append(f"def eccHashBits : List (Nat × Nat) := {pairs(hash_tbl)}  -- RotMetaEcc.HASH_SIZES (coordinate size -> SHA-2 width; by value, sorted)")
+
+    # ---- pack side of the three credential classes
+    rsa_versions = [f"{a}.{b}" for a, b in versions if a == 1]
+    ecc_versions = [f"{a}.{b}" for a, b in versions if a == 2][:2]
+
+    def free_probes(vers, kcls):
+        ps = []
+        for k, v in enumerate(vers):
+            ps.append((v, RotMetaStub(distinct(128 if kcls is KeyRsa and k == 0 else 41 + 6 * k, 2 + k)), kcls(distinct(301 + 10 * k, 4 + k), coordinate_size=33 + k),
+                       kcls(distinct(317 + 10 * k, 6 + k), coordinate_size=37 + k), distinct(89 + 4 * k, 8 + k)))
+        return ps
+
+    layouts = {}
+    rsa_key = rsa_sig = None
+
+    def do_class(pfx, clsname, vers, kcls):
+        nonlocal rsa_key, rsa_sig
+        probes = free_probes(vers, kcls)
+        byv = {}
+        exp = name_cols(pack_layout(sb, ns, clsname, probes, "export"), probes, ns, byv)
+        sgn = name_cols(pack_layout(sb, ns, clsname, probes, "_get_data_to_sign"), probes, ns, byv)
+        if pfx == "rsa":
+            for sizes, args in byv.items():
+                if set(args) == {".sig"}:
+                    rsa_sig = sizes
+                elif set(args) <= {".dck", ".rotPub"} and args:
+                    rsa_key = sizes if rsa_key in (None, sizes) else "conflict"
+        return finish_layout(exp, rsa_key, rsa_sig), finish_layout(sgn, rsa_key, rsa_sig)
+
+    for pfx, clsname, vers, kcls in (("rsa", "DebugCredentialCertificateRsa", rsa_versions, KeyRsa), ("ecc", "DebugCredentialCertificateEcc", ecc_versions, KeyEcc),
+                                     ("ele", "DebugCredentialEdgeLockEnclave", ecc_versions, KeyEcc)):
+        layouts[pfx] = attempt(meta, pfx + " export layout", lambda a=(pfx, clsname, vers, kcls): do_class(*a), (UNK, UNK))
+    minors = [int(v.split(".")[1]) for v in rsa_versions]
+    ks = dict(zip(minors, rsa_key)) if isinstance(rsa_key, tuple) else None
+    ss = dict(zip(minors, rsa_sig)) if isinstance(rsa_sig, tuple) else None
+    out.append(f"def rsaKeySize : List (Nat × Nat) := {pairs(ks)}  -- width of the two key fields of the RSA credential by minor version (probed)")
+    out.append(f"def rsaSigSize : List (Nat × Nat) := {pairs(ss)}  -- width of its signature field by minor version (probed)")
+    out.append(f"def rsaSizeIndexedByMinor : Bool := {_b(ks is not None and ss is not None)}")
+    out.append("")
+    for pfx in ("rsa", "ecc", "ele"):
+        out.append(f"def {pfx}Export : List (DatFld × DatArg) := {lean_layout(layouts[pfx][0])}")
+        out.append(f"def {pfx}Sign : List (DatFld × DatArg) := {lean_layout(layouts[pfx][1])}")
     out.append("")
 
-    def class_layout(pfx, cls, base_pieces, sig_pieces):
-        full = _fields(base_pieces) + _fields(sig_pieces, "sig") if base_pieces is not None and sig_pieces is not None else [".unknown"]
-        exp_args = pack_args(_fun(cls, "export")) or [".unknown"]
-        sgn_args = pack_args(_fun(cls, "_get_data_to_sign")) or [".unknown"]
-        out.append(f"def {pfx}Export : List (DatFld × DatArg) := {_zip(full, exp_args)}")
-        out.append(f"def {pfx}Sign : List (DatFld × DatArg) := {_zip(_fields(base_pieces), sgn_args)}")
-        meta[pfx + "_format"] = {"base": repr(base_pieces), "sig": repr(sig_pieces)}
-        return full
+    # ---- RotMeta classes (needed for consistent credentials below)
+    rsa_geo = attempt(meta, "RotMetaRSA geometry", lambda: probe_rotmeta_rsa(ns), (0, 0, 0, 0))
+    item_tbl = attempt(meta, "RotMetaEcc item width", lambda: probe_ecc_item_width(ns, hash_tbl), {})
+    flags = attempt(meta, "RotMetaFlags", lambda: probe_flags(ns), None)
 
-    rfull = class_layout("rsa", rsa, rbase, rsig)
-    ebase, esig, _ = data_format(ecc)
-    class_layout("ecc", ecc, ebase, esig)
-    lbase, lsig, _ = data_format(ele)
-    class_layout("ele", ele, lbase, lsig)
+    # ---- parse side
+    def rsa_insts():
+        res = []
+        for k, v in enumerate(rsa_versions):
+            mi = int(v.split(".")[1])
+            rm = ns["RotMetaRSA"]([distinct(rsa_geo[2], 20 + i + 3 * k) for i in range(2 + k)])
+            res.append(mk_dc(ns, "DebugCredentialCertificateRsa", v, rm, KeyRsa(distinct(ks[mi], 30 + k)), KeyRsa(distinct(ks[mi], 32 + k)), distinct(ss[mi], 34 + k)))
+        return res
+
+    def ecc_insts():
+        res = []
+        for k, v in enumerate(ecc_versions):
+            c = coord_tbl[int(v.split(".")[1])]
+            sub = ns["RotMetaEcc"]._get_subclass(c)
+            rm = sub(ns["RotMetaFlags"](1, 3 + k), [distinct(item_tbl[c], 40 + i + 5 * k) for i in range(3 + k)])
+            res.append(mk_dc(ns, "DebugCredentialCertificateEcc", v, rm, KeyEcc(distinct(2 * c, 50 + k), coordinate_size=c), KeyEcc(distinct(2 * c, 52 + k), coordinate_size=c),
+                             distinct(2 * c, 54 + k)))
+        return res
+
+    def ele_insts():
+        res = []
+        for k, v in enumerate(ecc_versions):
+            keys = [KeyEcc(distinct(70 + 2 * i + 9 * k, 60 + i), signature_size=100 + 3 * i + 7 * k) for i in range(4)]
+            SrkTable.KEYS = keys
+            body = distinct(60 + 8 * k, 70 + k)
+            tbl = SrkTable(struct.pack("<H", len(body) + 2) + body)
+            rm = ns["RotMetaEdgeLockEnclave"](ns["RotMetaFlags"](2, 4), tbl)
+            inst = mk_dc(ns, "DebugCredentialEdgeLockEnclave", v, rm, keys[2], KeyEcc(distinct(len(keys[2].raw), 80 + k)), distinct(keys[2].signature_size, 82 + k))
+            inst._srk_keys = keys
+            res.append(inst)
+        return res
+
+    def parse_of(pfx, clsname, mk, cand_fn):
+        # (the SRK stub hands out the keys of the credential that is being parsed)
+        before = (lambda inst: setattr(SrkTable, "KEYS", inst._srk_keys)) if pfx == "ele" else None
+        return attempt(meta, pfx + " parse layout", lambda: parse_layout(sb, ns, clsname, mk(), cand_fn, before), UNK)
+
+    rsa_cand = lambda insts: {".rsaKey": [len(i.dck_pub.raw) for i in insts], ".rsaSig": [len(i.signature) for i in insts]}  # noqa: E731
+    ecc_cand = lambda insts: {".hashSize2": [2 * coord_tbl[i.version.minor] for i in insts], ".lenRotMeta": [len(i.rot_meta.export()) for i in insts]}  # noqa: E731
+    ele_cand = lambda insts: {".lenRotPub": [len(i.rot_pub.raw) for i in insts], ".rotSigSize": [i.rot_pub.signature_size for i in insts],  # noqa: E731
+                              ".lenRotMeta": [len(i.rot_meta.export()) for i in insts]}
+    out.append(f"def rsaParse : List (DatFld × DatArg) := {lean_layout(parse_of('rsa', 'DebugCredentialCertificateRsa', rsa_insts, rsa_cand))}  -- what parse() reads, by offset")
+    out.append(f"def eccParse : List (DatFld × DatArg) := {lean_layout(parse_of('ecc', 'DebugCredentialCertificateEcc', ecc_insts, ecc_cand))}")
+    out.append(f"def eleParse : List (DatFld × DatArg) := {lean_layout(parse_of('ele', 'DebugCredentialEdgeLockEnclave', ele_insts, ele_cand))}")
     out.append("")
 
-    # ---- parse side (locals resolved to the constructor attribute they feed: see `Canon`)
-    rparse = _fun(rsa, "parse")
-    calls = [c for c in unpack_calls(rparse, Canon(rparse, DC_KW)) if c[0] == ("method", "get_data_format")]
-    rt = calls[0][1] if len(calls) == 1 else [".unknown"]
-    out.append(f"def rsaParse : List (DatFld × DatArg) := {_zip(rfull, rt)}  -- unpack_from(cls.get_data_format(version), data) targets")
-    out.append(f"def rsaParseFields : List DatArg := {ctor_fields(rparse, DC_KW)}  -- keywords of the returned cls(...) call")
-    for pfx, cls in (("ecc", ecc), ("ele", ele)):
-        fn = _fun(cls, "parse")
-        calls = unpack_calls(fn, Canon(fn, DC_KW))
-        (head, ht, _), (tail, tt, _) = calls if len(calls) == 2 and all(isinstance(c[0], list) for c in calls) else ((None, [".unknown"], 0),) * 2
-        out.append(f"def {pfx}ParseHead : List (DatFld × DatArg) := {_zip(_fields(head), ht)}")
-        out.append(f"def {pfx}ParseTail : List (DatFld × DatArg) := {_zip(_fields(tail), tt)}")
-        out.append(f"def {pfx}ParseFields : List DatArg := {ctor_fields(fn, DC_KW)}")
-        meta[pfx + "_parse"] = {"head": repr(head), "tail": repr(tail)}
+    # ---- RotMeta tables
+    if flags is None:
+        flags = {"export": [], "ctor": [], "len": 0, "parse": []}
+    out.append("def flagsExportTbl : List ((Nat × Nat) × Nat) := [" + ", ".join(f"(({u}, {c}), {w})" for (u, c), w in flags["export"]) + "]"
+               "  -- RotMetaFlags(used, cnt).export() as a little-endian word, every pair 0..15 the constructor accepts")
+    out.append("def flagsCtorOk : List (Nat × Nat) := [" + ", ".join(f"({u}, {c})" for u, c in flags["ctor"]) + "]  -- pairs 0..15 x 0..15 accepted by RotMetaFlags(...)")
+    out.append(f"def flagsLen : Nat := {flags['len']}  -- length of the exported flags; parse refuses every other length")
+    out.append("/-- RotMetaFlags.parse(word): `some (used, cnt)`, `none` = refused with an SPSDK error (probe words: every pair with and without the marker bit,\n"
+               "    stray bits, pseudo-random words) -/")
+    out.append("def flagsParseProbes : List (Nat × Option (Nat × Nat)) := [" + ", ".join(
+        f"({w}, {'none' if r is None else f'some ({r[0]}, {r[1]})'})" for w, r in flags["parse"]) + "]")
+    out.append(f"def rotMetaRsaSize : Nat := {rsa_geo[0]}  -- len(RotMetaRSA([]).export())")
+    out.append(f"def rotMetaRsaCount : Nat := {rsa_geo[1]}  -- items RotMetaRSA.parse returns for an all-non-zero table")
+    out.append(f"def rotMetaRsaItem : Nat := {rsa_geo[2]}  -- their width (0 = export and parse disagree)")
+    out.append(f"def rotMetaRsaMinLen : Nat := {rsa_geo[3]}  -- shortest input RotMetaRSA.parse accepts")
+    mx = attempt(meta, "RotMetaRSA max keys", lambda: probe_rsa_max_keys(sb, ns), 0)
+    out.append(f"def rotMetaRsaMaxKeys : Nat := {mx}  -- most keys RotMetaRSA.load_from_config accepts")
+    out.append(f"def eccItemWidthTbl : List (Nat × Nat) := {pairs(item_tbl)}  -- coordinate size -> width of one CRTK table item read by RotMetaEcc<n>.parse")
+    th = attempt(meta, "RotMetaEcc table hash", lambda: probe_ecc_table_hash(ns), {})
+    out.append(f"def eccTableHashTbl : List (Nat × Nat) := {pairs(th)}  -- item width -> SHA-2 width of calculate_hash (0 = SPSDK error, 1 = other error)")
+    sk = attempt(meta, "single key hash", lambda: probe_single_key_hash(ns, coord_tbl), {})
+    out.append(f"def eccSingleKeyHashTbl : List (Nat × Nat) := {pairs(sk)}  -- coordinate size -> SHA-2 width of the single-key fallback (0 / 1 = error as above)")
     out.append("")
 
-    # ---- RotMeta
-    flags_functions(tree, out, meta)
-    rmr = _cls(tree, "RotMetaRSA")
-    size = count = item = 0
-    fn = _fun(rmr, "export")
-    if fn is not None:
-        for n in ast.walk(fn):
-            if isinstance(n, ast.Call) and isinstance(n.func, ast.Name) and n.func.id == "bytearray" and n.args and isinstance(_lit(n.args[0]), int):
-                size = _lit(n.args[0])
-    fn = _fun(rmr, "parse")
-    items_p = set()
-    min_len = 0
-    if fn is not None:
-        for n in ast.walk(fn):
-            if isinstance(n, ast.Call) and isinstance(n.func, ast.Name) and n.func.id == "range" and len(n.args) == 2 and isinstance(_lit(n.args[1]), int):
-                count = _lit(n.args[1])
-            if isinstance(n, ast.BinOp) and isinstance(n.op, ast.Mult) and isinstance(_lit(n.right), int) and "index" in ast.unparse(n.left):
-                items_p.add(_lit(n.right))
-            if isinstance(n, ast.Compare) and ast.unparse(n.left) == "len(data)" and isinstance(n.ops[0], ast.Lt):
-                min_len = _lit(n.comparators[0]) or 0
-    items_e = set()
-    fn = _fun(rmr, "export")
-    if fn is not None:
-        for n in ast.walk(fn):
-            if isinstance(n, ast.BinOp) and isinstance(n.op, ast.Mult) and isinstance(_lit(n.right), int) and "index" in ast.unparse(n.left):
-                items_e.add(_lit(n.right))
-    if len(items_p) == 1 and items_p == items_e:
-        item = items_p.pop()
-    out.append(f"def rotMetaRsaSize : Nat := {size}  -- RotMetaRSA.export: bytearray(N)")
-    out.append(f"def rotMetaRsaCount : Nat := {count}  -- RotMetaRSA.parse: range(0, N)")
-    out.append(f"def rotMetaRsaItem : Nat := {item}  -- RotMetaRSA.export/parse: index * N slices (0 = export and parse disagree)")
-    out.append(f"def rotMetaRsaMinLen : Nat := {min_len}  -- RotMetaRSA.parse: len(data) < N")
-    mx = 0
-    fn = _fun(rmr, "load_from_config")
-    if fn is not None:
-        for n in ast.walk(fn):
-            if isinstance(n, ast.Compare) and "len(rot_pub_keys)" in ast.unparse(n.left) and isinstance(n.ops[0], ast.Gt):
-                mx = _lit(n.comparators[0]) or 0
-    out.append(f"def rotMetaRsaMaxKeys : Nat := {mx}  -- RotMetaRSA.load_from_config: len(rot_pub_keys) > N")
-    # RotMetaEcc: width of one CRTK table item in parse(), hash width of calculate_hash(), label of the single-key fallback
-    item_expr = hash_expr = fb_expr = "?"
-    fn = _fun(rme, "parse")
-    if fn is not None:
-        assigns = {n.targets[0].id: n.value for n in ast.walk(fn)
-                   if isinstance(n, ast.Assign) and len(n.targets) == 1 and isinstance(n.targets[0], ast.Name)}
-        mults = set()
-        for n in ast.walk(fn):
-            if isinstance(n, ast.Slice) and n.lower is not None and isinstance(n.lower, ast.BinOp) and isinstance(n.lower.op, ast.Mult) \
-                    and "rot_item_idx" in ast.unparse(n.lower.left):
-                m = n.lower.right
-                if isinstance(m, ast.Name) and m.id in assigns:
-                    m = assigns[m.id]
-                mults.add(ast.unparse(m))
-        if len(mults) == 1:
-            item_expr = mults.pop()
-    ks = None
-    for n in (rme.body if rme else []):
-        if isinstance(n, ast.FunctionDef) and n.name == "key_size":
-            ks = n
-    if ks is not None:
-        rets = [ast.unparse(n.value) for n in ast.walk(ks) if isinstance(n, ast.Return) and n.value is not None]
-        if len(rets) == 1:
-            hash_expr = rets[0]
-    fn = _fun(rme, "calculate_hash")
-    uses_key_size = fn is not None and any(isinstance(n, ast.JoinedStr) and ast.unparse(n) == "f'sha{self.key_size}'" for n in ast.walk(fn))
-    fn = _fun(ecc, "calculate_hash")
-    if fn is not None:
-        assigns = {n.targets[0].id: n.value for n in ast.walk(fn)
-                   if isinstance(n, ast.Assign) and len(n.targets) == 1 and isinstance(n.targets[0], ast.Name)}
-        for n in ast.walk(fn):
-            if isinstance(n, ast.JoinedStr) and len(n.values) == 2 and isinstance(n.values[0], ast.Constant) and n.values[0].value == "sha" \
-                    and isinstance(n.values[1], ast.FormattedValue):
-                v = n.values[1].value
-                if isinstance(v, ast.Name) and v.id in assigns:
-                    v = assigns[v.id]
-                fb_expr = ast.unparse(v)
-    out.append(f'def eccItemWidthExpr : String := "{item_expr}"  -- RotMetaEcc.parse: multiplier of rot_item_idx in the table slice')
-    out.append(f'def eccTableHashBitsExpr : String := "{hash_expr if uses_key_size else "?"}"  -- RotMetaEcc.key_size, used as f"sha{{self.key_size}}" in calculate_hash')
-    out.append(f'def eccSingleKeyHashBitsExpr : String := "{fb_expr}"  -- DebugCredentialCertificateEcc.calculate_hash fallback: f"sha{{...}}"')
+    # ---- what create_from_yaml_config accepts
+    cp = attempt(meta, "create probes", lambda: probe_create(sb, ns), [])
+    out.append("/-- (class 0 rsa / 1 ecc / 2 ele, major, minor, uuid length, RoT key kind 0 rsa / 1 ecc, bits, DCK kind, bits, result 0 created / 1 SPSDK error / 2 other) -/")
+    out.append("def createProbes : List (List Nat) := [" + ", ".join("[" + ", ".join(str(x) for x in r) + "]" for r in cp) + "]")
     out.append("")
 
     # ---- DAC
-    dtree = parse(DAC)
-    dcls = _cls(dtree, "DebugAuthenticationChallenge")
-    dparse = _fun(dcls, "parse")
-    calls = unpack_calls(dparse, Canon(dparse, DAC_KW))
-    (head, ht, _), (tail, tt, _) = calls if len(calls) == 2 and all(isinstance(c[0], list) for c in calls) else ((None, [".unknown"], 0),) * 2
-    out.append(f"def dacHead : List (DatFld × DatArg) := {_zip(_fields(head), ht)}")
-    out.append(f"def dacTail : List (DatFld × DatArg) := {_zip(_fields(tail), tt)}")
-    meta["dac_parse"] = {"head": repr(head), "tail": repr(tail)}
-    # export: sequence of `data = pack(fmt, *[a, b])` / `data += pack(fmt, x)` / `data += self.x`
-    dexp = _fun(dcls, "export")
-    items = []
-    if dexp is not None:
-        for s in dexp.body:
-            v = s.value if isinstance(s, (ast.Assign, ast.AugAssign)) else None
-            if v is None:
-                continue
-            if isinstance(v, ast.Call) and isinstance(v.func, ast.Name) and v.func.id == "pack":
-                flds = _fields(_str_pieces(v.args[0]))
-                args = []
-                for a in v.args[1:]:
-                    if isinstance(a, ast.Starred) and isinstance(a.value, (ast.List, ast.Tuple)):
-                        args.extend(_arg(e) for e in a.value.elts)
-                    else:
-                        args.append(_arg(a))
-                if len(flds) != len(args):
-                    flds, args = [".unknown"], [".unknown"]
-                items.extend(zip(flds, args))
-            else:
-                items.append((".raw", _arg(v)))
-    out.append("def dacExport : List (DatFld × DatArg) := [" + ", ".join(f"({f}, {a})" for f, a in items) + "]")
-    dac_hash_len(dtree, out, meta)
+    dac = attempt(meta, "DAC", lambda: probe_dac(sb, ns), None) or {"export": UNK, "parse": UNK, "hash": [], "swap": False}
+    out.append(f"def dacParseLayout : List (DatFld × DatArg) := {lean_layout(dac['parse'])}  -- what DebugAuthenticationChallenge.parse reads, by offset")
+    out.append(f"def dacExport : List (DatFld × DatArg) := {lean_layout(dac['export'])}")
+    out.append("/-- get_rot_hash_length for (based_on_ele, dat_is_using_sha256_always, major, minor), versions 0..3 x 0..3 -/")
+    out.append("def dacHashLenTbl : List ((Bool × Bool × Nat × Nat) × Nat) := [" + ", ".join(
+        f"(({_b(e)}, {_b(s)}, {a}, {b}), {v})" for (e, s, a, b), v in dac["hash"]) + "]")
+    out.append(f"def dacSwapOk : Bool := {_b(dac['swap'])}  -- dac_version_is_swapped: the two version words are exchanged after the hash width has been taken from the wire order")
     out.append("")
 
     # ---- DAR
-    rtree = parse(DAR)
-
-    def concat_parts(cls, fname):
-        fn = _fun(cls, fname)
-        parts = []
-        if fn is None:
-            return None
-        for s in fn.body:
-            v = s.value if isinstance(s, (ast.Assign, ast.AugAssign)) else None
-            if v is None:
-                continue
-            if isinstance(v, ast.Call) and isinstance(v.func, ast.Name) and v.func.id == "pack":
-                flds = _fields(_str_pieces(v.args[0]))
-                args = [_arg(a) for a in v.args[1:]]
-                if len(flds) != len(args):
-                    flds, args = [".unknown"], [".unknown"]
-                parts.extend(zip(flds, args))
-            elif isinstance(v, ast.Call) and ast.unparse(v) == "self._get_common_data()":
-                parts.append((".raw", ".skip"))  # marker: the common part
-            else:
-                parts.append((".raw", _arg(v)))
-        return parts
-
-    def lst(parts):
-        return "[" + ", ".join(f"({f}, {a})" for f, a in (parts or [(".unknown", ".unknown")])) + "]"
-
-    base = _cls(rtree, "DebugAuthenticateResponse")
-    eccr = _cls(rtree, "DebugAuthenticateResponseECC")
-    out.append(f"def darCommonBase : List (DatFld × DatArg) := {lst(concat_parts(base, '_get_common_data'))}")
-    out.append(f"def darCommonEcc : List (DatFld × DatArg) := {lst(concat_parts(eccr, '_get_common_data'))}")
-    out.append(f"def darSignLayout : List (DatFld × DatArg) := {lst(concat_parts(base, '_get_data_for_signature'))}  -- (.raw, .skip) = _get_common_data()")
-    out.append(f"def darExportLayout : List (DatFld × DatArg) := {lst(concat_parts(base, 'export'))}")
-    # which methods the ECC response classes override (anything besides _get_common_data would escape the model)
-    over = sorted(n.name for n in (eccr.body if eccr else []) if isinstance(n, ast.FunctionDef))
-    out.append("def darEccOverrides : List String := [" + ", ".join(f'"{o}"' for o in over) + "]")
-    # version -> class -> does it derive from DebugAuthenticateResponseECC
-    classes = {n.name: n for n in rtree.body if isinstance(n, ast.ClassDef)}
-
-    def derives_ecc(name, depth=0):
-        if name == "DebugAuthenticateResponseECC":
-            return True
-        c = classes.get(name)
-        if c is None or depth > 8:
-            return False
-        return any(isinstance(b, ast.Name) and derives_ecc(b.id, depth + 1) for b in c.bases)
-
-    vm = []
-    for n in rtree.body:
-        if isinstance(n, ast.Assign) and len(n.targets) == 1 and isinstance(n.targets[0], ast.Name) and n.targets[0].id == "_version_mapping" \
-                and isinstance(n.value, ast.Dict):
-            for k, v in zip(n.value.keys, n.value.values):
-                m = re.fullmatch(r"(\d+)\.(\d+)", str(_lit(k)))
-                if m and isinstance(v, ast.Name):
-                    extra = sorted(x.name for x in classes.get(v.id, ast.ClassDef(body=[])).body if isinstance(x, ast.FunctionDef))
-                    vm.append((int(m.group(1)), int(m.group(2)), derives_ecc(v.id), v.id, extra))
-    out.append("def darVersionUsesEcc : List ((Nat × Nat) × Bool) := [" + ", ".join(f"(({a}, {b}), {_b(e)})" for a, b, e, _, _ in vm) + "]  -- _version_mapping")
-    out.append(f"def darLeafOverrides : Bool := {_b(any(x for *_, x in vm))}  -- a leaf response class defines methods of its own")
-    meta["dar_version_mapping"] = {f"{a}.{b}": c for a, b, _, c, _ in vm}
+    dar = attempt(meta, "DAR", lambda: probe_dar(sb, ns), None) or {"base": UNK, "ecc": UNK, "sign": UNK, "export": UNK, "uses": [], "uniform": False}
+    out.append(f"def darCommonBase : List (DatFld × DatArg) := {lean_layout(dar['base'])}  -- _get_common_data() of the response class of the RSA versions")
+    out.append(f"def darCommonEcc : List (DatFld × DatArg) := {lean_layout(dar['ecc'])}  -- ... of the ECC versions")
+    out.append(f"def darSignLayout : List (DatFld × DatArg) := {lean_layout(dar['sign'])}  -- _get_data_for_signature(); (.raw, .skip) = the common data")
+    out.append(f"def darExportLayout : List (DatFld × DatArg) := {lean_layout(dar['export'])}  -- export(); (.raw, .signature) = signature of the signed message")
+    out.append("def darVersionUsesEcc : List ((Nat × Nat) × Bool) := [" + ", ".join(f"(({a}, {b}), {_b(e)})" for (a, b), e in dar["uses"]) + "]  -- _version_mapping (sorted)")
+    out.append(f"def darUniform : Bool := {_b(dar['uniform'])}  -- every version's class produces one of the two common layouts, the same signed message and packet shape")
     out.append("")
 
-    # ---- what create_from_yaml_config refuses: tests of the `if <test>: raise ...` statements that follow the look-ups, with the locals
-    # renamed to the keyword of the credential constructor call they are passed to («uuid», «dck_pub», «rot_pub», «version») and the
-    # class variable that is called to «class»
-    base = _cls(tree, "DebugCredentialCertificate")
-    cfn = _fun(base, "create_from_yaml_config")
-    refusals = []
-    if cfn is not None:
-        role = {}
-        for n in ast.walk(cfn):
-            if isinstance(n, ast.Call) and isinstance(n.func, ast.Name) and {"rot_meta", "dck_pub", "rot_pub"} <= {k.arg for k in n.keywords}:
-                role[n.func.id] = "«class»"
-                for kw in n.keywords:
-                    if isinstance(kw.value, ast.Name):
-                        role.setdefault(kw.value.id, "«%s»" % kw.arg)
-        for st in cfn.body:
-            if isinstance(st, ast.If) and st.body and isinstance(st.body[0], ast.Raise) and not st.orelse:
-                t = copy.deepcopy(st.test)
-                for x in ast.walk(t):
-                    if isinstance(x, ast.Name) and x.id in role:
-                        x.id = role[x.id]
-                refusals.append(ast.unparse(t))
-    out.append(f"def createRefusals : List String := {_strs(refusals)}  -- create_from_yaml_config: top-level `if <test>: raise`")
-    out.append("")
-
-    # ---- EdgeLock enclave v2 credential = AHAB certificate (spsdk/image/ahab/ahab_certificate.py) wrapped by DebugCredentialEdgeLockEnclaveV2
-    v2_section(tree, out, meta)
+    # ---- EdgeLock enclave v2
+    v2_section(sb, ns, out, meta)
 
     # ---- database
     rows = db_rows(meta)
@@ -971,8 +1424,6 @@ def gen_DatConsts():
     meta["families"] = sorted({r[0] for r in rows})
     out.append("")
     out.append("end SpsdkVerif.Generated.DatConsts")
-    if UNKNOWN_W:
-        meta["unknown_width_expressions"] = sorted(set(UNKNOWN_W))
     emit("DatConsts", "\n".join(out) + "\n", meta)
 
 
